@@ -210,6 +210,7 @@ Proof.
      (a_buf a < nbuf w -> a_buf a' < nbuf w1) /\ (copy = true -> nbuf w <= a_buf a')).
   { intros E Hc. inversion E; subst. split; [apply ext_refl|]. splits; auto. discriminate. }
   destruct copy; [apply Hfresh; exact H|].
+  destruct (thru && a_f a); [apply Hfresh; exact H|].
   destruct shp as [|contig|]; [destruct ist| destruct (thru && negb contig) |]; auto.
 Qed.
 
@@ -486,3 +487,1252 @@ Proof.
     - cbn. auto. }
   split; reflexivity.
 Qed.
+
+Ltac ids_tac :=
+  unfold ids_below, oarr_below, oarr_above in *; cbn [tm ul ua tr tloc nbuf ntop push put] in *; splits; try lia;
+  repeat match goal with |- context [if ?c then _ else _] => destruct c end;
+  repeat match goal with |- match ?x with _ => _ end => destruct x end; cbn; auto; try lia.
+
+(* ------------------------------------------------------------------ stack *)
+(* an array handed to the constructor: the same object, or (Fortran-ordered input) a fresh copy of the same values *)
+Definition cell_passed (w : world) (o o' : option (arr cval)) : Prop :=
+  match o, o' with
+  | None, None => True
+  | Some a, Some a' => a_val a' = a_val a /\ (a' = a \/ nbuf w <= a_buf a')
+  | _, _ => False
+  end.
+
+Lemma ensure_oarr_spec w (o : option (arr cval)) w1 o' : ensure_oarr w o = (w1, o') ->
+  ext w w1 /\ hx w1 = hx w /\ ntop w1 = ntop w /\ cell_passed w o o' /\
+  (oarr_below (nbuf w) o -> oarr_below (nbuf w1) o').
+Proof.
+  unfold ensure_oarr. destruct o as [a|].
+  - destruct (a_f a).
+    + intros H. apply copy_oarr_spec in H. destruct H as [H1 [H2 [H3 [H4 H5]]]].
+      destruct o' as [a'|]; [|contradiction]. destruct H5 as [H5 H6]. splits; auto.
+      * cbn. split; [exact H6|right; lia].
+      * intros _. cbn. lia.
+    + intros H; inversion H; subst. split; [apply ext_refl|]. splits; cbn; auto.
+  - intros H; inversion H; subst. split; [apply ext_refl|]. splits; cbn; auto.
+Qed.
+
+Lemma cell_passed_is_some w o o' : cell_passed w o o' -> match o, o' with Some _, Some _ | None, None => True | _, _ => False end.
+Proof. unfold cell_passed. destruct o, o'; tauto. Qed.
+
+Lemma stack_ok w r r' t o w' :
+  wf w -> nth_error (trajs w) r = Some t -> nth_error (trajs w) r' = Some o -> do_stack w r r' = (w', ROk) ->
+  exists t',
+    trajs w' = trajs w ++ [t'] /\ hext w w' /\
+    frames w' t' = zip_stk (frames w t) (frames w o) /\
+    tm t' = tm t /\ cell_passed w (ul t) (ul t') /\ cell_passed w (ua t) (ua t') /\
+    na t' = na t + na o /\ chains t' = chains t ++ chains o /\
+    tr t' = None /\ lengths_ok t' = true /\ reg_ok w' t' /\
+    length (hx w) <= xb t' /\ ntop w <= tloc t' /\ nframes t = nframes o.
+Proof.
+  unfold do_stack. intros Hwf Hr Hr' H. rewrite Hr, Hr' in H.
+  destruct (Nat.eqb (nframes t) (nframes o)) eqn:G; cbn [negb] in H; [|inversion H]. apply Nat.eqb_eq in G.
+  remember (zip_stk (frames w t) (frames w o)) as fs eqn:Efs.
+  destruct (alloc_x w fs) as [w1 b] eqn:A. destruct (fresh_top w1) as [w2 tl] eqn:T.
+  destruct (ensure_oarr w2 (ul t)) as [w3 ul'] eqn:E3. destruct (ensure_oarr w3 (ua t)) as [w4 ua'] eqn:E4.
+  destruct (construct w4 b (seq 0 (length fs)) (na t + na o) tl (chains t ++ chains o) (tm t) ul' ua') as [w5 [|e]] eqn:C;
+    inversion H; subst w5; clear H.
+  apply construct_ok in C. destruct C as [-> [Hc1 Hc2]].
+  apply alloc_x_spec in A. destruct A as [A1 [A2 [A3 [A4 [A5 [A6 A7]]]]]].
+  apply fresh_top_spec in T. destruct T as [P1 [P2 [P3 [P4 P5]]]].
+  apply ensure_oarr_spec in E3. destruct E3 as [X1 [X2 [X3 [X4 X5]]]].
+  apply ensure_oarr_spec in E4. destruct E4 as [Y1 [Y2 [Y3 [Y4 Y5]]]].
+  assert (E14 : ext w1 w4) by (eapply ext_trans; [exact P1|eapply ext_trans; eauto]).
+  assert (Eall : ext w w4) by (eapply ext_trans; eauto).
+  destruct (wf_lookup _ _ _ Hwf Hr) as [_ [I1 [I2 [I3 [I4 I5]]]]].
+  pose proof (ext_nbuf _ _ X1) as Nx. pose proof (ext_nbuf _ _ Y1) as Ny.
+  eexists. split. { cbn [trajs push]. rewrite (ext_trajs _ _ Eall). reflexivity. }
+  split. { eapply hext_trans; [apply ext_hext; exact Eall|apply hext_push]. }
+  assert (Hbuf : buf_of (push w4 (mkTraj b (seq 0 (length fs)) (na t + na o) (tm t) ul' ua' tl (chains t ++ chains o) None false)) b = fs).
+  { unfold buf_of. cbn [hx push]. rewrite Y2, X2, P4. exact A3. }
+  split. { apply frames_fresh_view. exact Hbuf. }
+  cbn [tm ul ua na chains tr xb tloc].
+  split; [reflexivity|].
+  pose proof (ext_nbuf _ _ A1) as Na. pose proof (ext_nbuf _ _ P1) as Np.
+  split. { unfold cell_passed in *. destruct (ul t), ul'; auto. destruct X4 as [X4 [X6|X6]]; split; auto. right. lia. }
+  split. { unfold cell_passed in *. destruct (ua t), ua'; auto. destruct Y4 as [Y4 [Y6|Y6]]; split; auto. right. lia. }
+  splits; auto; try lia.
+  split.
+  - apply fresh_view_wf; [|exact Hbuf]. cbn [hx push]. rewrite Y2, X2, P4. exact A4.
+  - assert (B1 : oarr_below (nbuf w4) ul').
+    { assert (Q : oarr_below (nbuf w3) ul') by (apply X5; unfold oarr_below in *; destruct (ul t); auto; lia).
+      unfold oarr_below in *. destruct ul'; auto. lia. }
+    assert (B2 : oarr_below (nbuf w4) ua').
+    { apply Y5. unfold oarr_below in *. destruct (ua t); auto. lia. }
+    unfold ids_below. cbn [tm ul ua tr tloc nbuf ntop push]. splits; auto; try lia. cbn. auto.
+Qed.
+
+(* ------------------------------------------------------------------ atom_slice *)
+Definition cell_copied (w : world) (t t' : traj) : Prop :=
+  if have_cell t then
+    exists l a l' a', ul t = Some l /\ ua t = Some a /\ ul t' = Some l' /\ ua t' = Some a' /\
+                      a_val l' = a_val l /\ a_val a' = a_val a /\ nbuf w <= a_buf l' /\ nbuf w <= a_buf a'
+  else ul t' = None /\ ua t' = None.
+
+Lemma atom_slice_new_ok v w r idx t w' :
+  wf w -> nth_error (trajs w) r = Some t -> do_atom_slice v w r idx false = (w', ROk) ->
+  exists t' ni,
+    norm_indices (na t) idx = Some ni /\
+    trajs w' = trajs w ++ [t'] /\ hext w w' /\
+    frames w' t' = map (Sub ni) (frames w t) /\
+    a_val (tm t') = a_val (tm t) /\ cell_copied w t t' /\
+    na t' = length ni /\ chains t' = subset_chains 0 (chains t) idx /\
+    tr t' = None /\ lengths_ok t' = true /\ reg_ok w' t' /\ fresh_reg w t'.
+Proof.
+  unfold do_atom_slice. intros Hwf Hr H. rewrite Hr in H.
+  destruct (norm_indices (na t) idx) as [ni|] eqn:Ni; [|inversion H].
+  remember (map (Sub ni) (frames w t)) as fs eqn:Efs.
+  destruct (alloc_x w fs) as [w1 b] eqn:A. destruct (fresh_top w1) as [w2 tl] eqn:T.
+  destruct (if have_cell t then _ else _) as [[w3 ul'] ua'] eqn:Cc.
+  destruct (copy_arr w3 (tm t)) as [w4 tm'] eqn:Ct.
+  destruct (construct w4 b (seq 0 (length fs)) (length ni) tl (subset_chains 0 (chains t) idx) tm' ul' ua') as [w5 [|e]] eqn:C;
+    inversion H; subst w5; clear H.
+  apply construct_ok in C. destruct C as [-> [Hc1 Hc2]].
+  apply alloc_x_spec in A. destruct A as [A1 [A2 [A3 [A4 [A5 [A6 A7]]]]]].
+  apply fresh_top_spec in T. destruct T as [P1 [P2 [P3 [P4 P5]]]].
+  apply copy_arr_spec in Ct. destruct Ct as [Q1 [Q2 [Q3 [Q4 [Q5 Q6]]]]].
+  assert (E3 : ext w2 w3 /\ hx w3 = hx w2 /\ ntop w3 = ntop w2 /\ nbuf w2 <= nbuf w3 /\
+               oarr_below (nbuf w3) ul' /\ oarr_below (nbuf w3) ua' /\
+               (if have_cell t then
+                  exists l a l' a', ul t = Some l /\ ua t = Some a /\ ul' = Some l' /\ ua' = Some a' /\
+                      a_val l' = a_val l /\ a_val a' = a_val a /\ nbuf w2 <= a_buf l' /\ nbuf w2 <= a_buf a'
+                else ul' = None /\ ua' = None)).
+  { unfold have_cell in *. destruct (ul t) as [l|] eqn:Ul; destruct (ua t) as [a|] eqn:Ua;
+      try (injection Cc as Hw3 Hul Hua; subst w3 ul' ua'; splits; cbn; auto; apply ext_refl).
+    destruct (copy_oarr w2 (Some l)) as [wa l'] eqn:C1. destruct (copy_oarr wa (Some a)) as [wb a'] eqn:C2.
+    injection Cc as Hw3 Hul Hua. subst w3 ul' ua'. apply copy_oarr_spec in C1. apply copy_oarr_spec in C2.
+    destruct C1 as [X1 [X2 [X3 [X4 X5]]]]. destruct C2 as [Y1 [Y2 [Y3 [Y4 Y5]]]].
+    destruct l' as [l'|]; [|contradiction]. destruct a' as [a'|]; [|contradiction].
+    splits; try congruence; try lia; [eapply ext_trans; eauto|cbn; lia|cbn; lia|].
+    exists l, a, l', a'. splits; auto; try tauto; lia. }
+  destruct E3 as [E3 [H3 [T3 [N3 [B3l [B3a C3]]]]]].
+  assert (E14 : ext w1 w4).
+  { eapply ext_trans; [exact P1|]. eapply ext_trans; [exact E3|exact Q1]. }
+  assert (Eall : ext w w4) by (eapply ext_trans; eauto).
+  eexists. exists ni. split; [reflexivity|].
+  split. { cbn [trajs push]. rewrite (ext_trajs _ _ Eall). reflexivity. }
+  split. { eapply hext_trans; [apply ext_hext; exact Eall|apply hext_push]. }
+  assert (Hbuf : buf_of (push w4 (mkTraj b (seq 0 (length fs)) (length ni) tm' ul' ua' tl (subset_chains 0 (chains t) idx) None false)) b = fs).
+  { unfold buf_of. cbn [hx push]. rewrite Q5, H3, P4. exact A3. }
+  split. { try rewrite <- Efs. apply frames_fresh_view. exact Hbuf. }
+  cbn [tm ul ua na chains tr xb tloc].
+  split; [exact Q4|].
+  split. { unfold cell_copied. cbn [ul ua]. destruct (have_cell t); auto.
+           destruct C3 as [l [a [l' [a' C3]]]]. exists l, a, l', a'. splits; try tauto; lia. }
+  splits; auto.
+  - split.
+    + apply fresh_view_wf; [|exact Hbuf]. cbn [hx push]. rewrite Q5, H3, P4. exact A4.
+    + ids_tac.
+  - unfold fresh_reg. cbn [xb tm ul ua tr tloc]. splits; try lia.
+    + unfold oarr_above. destruct (have_cell t).
+      * destruct C3 as [l [a [l' [a' [_ [_ [-> [_ [_ [_ [? _]]]]]]]]]]]. lia.
+      * destruct C3 as [-> _]. auto.
+    + unfold oarr_above. destruct (have_cell t).
+      * destruct C3 as [l [a [l' [a' [_ [_ [_ [-> [_ [_ [_ ?]]]]]]]]]]]. lia.
+      * destruct C3 as [_ ->]. auto.
+    + cbn; auto.
+Qed.
+
+Lemma atom_slice_inplace_ok v w r idx t w' :
+  wf w -> nth_error (trajs w) r = Some t -> do_atom_slice v w r idx true = (w', ROk) ->
+  exists t' ni,
+    norm_indices (na t) idx = Some ni /\
+    trajs w' = set_nth r t' (trajs w) /\ hext w w' /\
+    frames w' t' = map (Sub ni) (frames w t) /\
+    tm t' = tm t /\ ul t' = ul t /\ ua t' = ua t /\
+    na t' = length ni /\ chains t' = subset_chains 0 (chains t) idx /\
+    tr t' = (if aslice_inplace_resets v then None else tr t) /\
+    nframes t' = nframes t /\ reg_ok w' t' /\ length (hx w) <= xb t'.
+Proof.
+  unfold do_atom_slice. intros Hwf Hr H. rewrite Hr in H.
+  destruct (norm_indices (na t) idx) as [ni|] eqn:Ni; [|inversion H].
+  remember (map (Sub ni) (frames w t)) as fs eqn:Efs.
+  destruct (alloc_x w fs) as [w1 b] eqn:A. destruct (fresh_top w1) as [w2 tl] eqn:T.
+  inversion H; subst w'; clear H.
+  apply alloc_x_spec in A. destruct A as [A1 [A2 [A3 [A4 [A5 [A6 A7]]]]]].
+  apply fresh_top_spec in T. destruct T as [P1 [P2 [P3 [P4 P5]]]].
+  assert (Eall : ext w w2) by (eapply ext_trans; eauto).
+  destruct (wf_lookup _ _ _ Hwf Hr) as [[Hxb [Hnd Hpos]] [I1 [I2 [I3 [I4 I5]]]]].
+  eexists. exists ni. split; [reflexivity|].
+  split. { cbn [trajs put]. rewrite (ext_trajs _ _ Eall). reflexivity. }
+  split. { eapply hext_trans; [apply ext_hext; exact Eall|apply hext_put]. }
+  match goal with |- frames ?W ?T = _ /\ _ => assert (Hbuf : buf_of W b = fs) end.
+  { unfold buf_of. cbn [hx put]. rewrite P4. exact A3. }
+  split. { try rewrite <- Efs. apply frames_fresh_view. exact Hbuf. }
+  cbn [tm ul ua na chains tr xb tloc]. splits; auto; try lia.
+  - unfold nframes. cbn [xp]. rewrite seq_length. subst fs. rewrite map_length. unfold frames. apply length_sel.
+  - split.
+    + apply fresh_view_wf; [|exact Hbuf]. cbn [hx put]. rewrite P4. exact A4.
+    + ids_tac.
+Qed.
+
+(* ------------------------------------------------------------------ in-place writes *)
+Lemma write_x_hx_len w b ps vs : length (hx (write_x w b ps vs)) = length (hx w).
+Proof. unfold write_x. cbn. apply length_set_nth. Qed.
+
+Lemma write_x_buf_other w b ps vs b' : b' <> b -> buf_of (write_x w b ps vs) b' = buf_of w b'.
+Proof. intros H. unfold buf_of, write_x. cbn. apply nth_set_nth_other. auto. Qed.
+
+Lemma write_x_buf_same w b ps vs : b < length (hx w) ->
+  buf_of (write_x w b ps vs) b = write_pos (buf_of w b) ps vs.
+Proof. intros H. unfold buf_of at 1, write_x. cbn. apply nth_set_nth_same. exact H. Qed.
+
+Lemma write_x_buf_len w b ps vs b' : length (buf_of (write_x w b ps vs) b') = length (buf_of w b').
+Proof.
+  destruct (Nat.eq_dec b' b) as [->|Hne].
+  - destruct (Nat.lt_ge_cases b (length (hx w))) as [Hlt|Hge].
+    + rewrite write_x_buf_same by exact Hlt. apply length_write_pos.
+    + unfold buf_of, write_x. cbn. rewrite !nth_overflow; auto. rewrite length_set_nth. exact Hge.
+  - now rewrite write_x_buf_other.
+Qed.
+
+Lemma reg_ok_write w b ps vs t : reg_ok w t -> reg_ok (write_x w b ps vs) t.
+Proof.
+  intros [[H1 [H2 H3]] H4]. split.
+  - unfold traj_wf. rewrite write_x_hx_len. splits; auto.
+    eapply Forall_impl; [|exact H3]. intros p Hp. now rewrite write_x_buf_len.
+  - exact H4.
+Qed.
+
+Lemma wf_write w b ps vs : wf w -> wf (write_x w b ps vs).
+Proof. intros H. unfold wf in *. cbn [trajs write_x]. eapply Forall_impl; [|exact H]. intros t. apply reg_ok_write. Qed.
+
+Lemma overlap_false b1 p1 b2 p2 :
+  overlap b1 p1 b2 p2 = false -> b1 <> b2 \/ (forall p, In p p1 -> ~ In p p2).
+Proof.
+  unfold overlap. intros H. apply andb_false_iff in H. destruct H as [H|H].
+  - left. apply Nat.eqb_neq. exact H.
+  - right. intros p Hp Hq.
+    assert (existsb (fun p => existsb (Nat.eqb p) p2) p1 = true).
+    { apply existsb_exists. exists p. split; auto. apply existsb_exists. exists p. split; auto. apply Nat.eqb_refl. }
+    congruence.
+Qed.
+
+Lemma frames_write_disjoint w b ps vs t :
+  overlap b ps (xb t) (xp t) = false -> frames (write_x w b ps vs) t = frames w t.
+Proof.
+  intros H. apply overlap_false in H. unfold frames. destruct H as [H|H].
+  - rewrite write_x_buf_other by auto. reflexivity.
+  - destruct (Nat.eq_dec (xb t) b) as [E|E]; [|now rewrite write_x_buf_other].
+    rewrite E. destruct (Nat.lt_ge_cases b (length (hx w))) as [Hlt|Hge].
+    + rewrite write_x_buf_same by exact Hlt. apply sel_write_pos_disjoint. intros q Hq Hin. apply (H q); auto.
+    + unfold buf_of, write_x. cbn. rewrite !nth_overflow; auto. rewrite length_set_nth. exact Hge.
+Qed.
+
+Lemma frames_write_same w t vs :
+  traj_wf w t -> length vs = length (xp t) -> frames (write_x w (xb t) (xp t) vs) t = vs.
+Proof.
+  intros [H1 [H2 H3]] Hl. unfold frames. rewrite write_x_buf_same by exact H1.
+  apply sel_write_pos_same; auto.
+Qed.
+
+Lemma length_frames w t : length (frames w t) = nframes t.
+Proof. unfold frames, nframes. apply length_sel. Qed.
+
+(* ------------------------------------------------------------------ cache bookkeeping *)
+Lemma cache_ok_ext w w' t : frames w' t = frames w t -> cache_ok w' t = cache_ok w t.
+Proof. intros H. unfold cache_ok. now rewrite H. Qed.
+
+Lemma cache_ok_none w t : tr t = None -> cache_ok w t = true.
+Proof. intros H. unfold cache_ok. now rewrite H. Qed.
+
+Lemma cache_ok_self w t c fs :
+  tr t = Some c -> a_val c = fs -> frames w t = fs -> Forall (fun x => is_cen x = true) fs -> cache_ok w t = true.
+Proof.
+  intros H1 H2 H3 H4. unfold cache_ok. rewrite H1, H2, H3. apply cache_match_iff. auto.
+Qed.
+
+Lemma Forall_is_cen_map_cen fs : Forall (fun x => is_cen x = true) (map cen fs).
+Proof. rewrite Forall_forall. intros x Hx. apply in_map_iff in Hx. destruct Hx as [y [<- _]]. apply is_cen_cen. Qed.
+
+(* ------------------------------------------------------------------ refused operations change nothing *)
+Ltac err_tac H :=
+  repeat match type of H with
+         | context [match ?x with _ => _ end] => destruct x eqn:?
+         end;
+  try (inversion H; subst; reflexivity); try discriminate.
+
+Lemma construct_err' w b ps natoms tl chs time l a w' e :
+  construct w b ps natoms tl chs time l a = (w', RErr e) -> True.
+Proof. auto. Qed.
+
+Lemma slice_err v w r k copy w' e : do_slice v w r k copy = (w', RErr e) -> w' = w.
+Proof. unfold do_slice. intros H. err_tac H. Qed.
+
+Lemma join_trajs_err w t os ct w' e : join_trajs w t os ct = (w', RErr e) -> w' = w.
+Proof. unfold join_trajs. intros H. err_tac H. Qed.
+
+Lemma join_err w r os ct w' e : do_join w r os ct = (w', RErr e) -> w' = w.
+Proof. unfold do_join. intros H. err_tac H. all: eapply join_trajs_err; eauto. Qed.
+
+Lemma mdjoin_err w rs w' e : do_mdjoin w rs = (w', RErr e) -> w' = w.
+Proof. unfold do_mdjoin. intros H. err_tac H. all: eapply join_trajs_err; eauto. Qed.
+
+Lemma stack_err w r r' w' e : do_stack w r r' = (w', RErr e) -> w' = w.
+Proof. unfold do_stack. intros H. err_tac H. Qed.
+
+Lemma atom_slice_err v w r idx ip w' e : do_atom_slice v w r idx ip = (w', RErr e) -> w' = w.
+Proof. unfold do_atom_slice. intros H. err_tac H. Qed.
+
+Lemma remove_solvent_err v w r ip w' e : do_remove_solvent v w r ip = (w', RErr e) -> w' = w.
+Proof. unfold do_remove_solvent. intros H. destruct (nth_error (trajs w) r); [eapply atom_slice_err; eauto|inversion H; auto]. Qed.
+
+Lemma center_err w r mw w' e : do_center w r mw = (w', RErr e) -> w' = w.
+Proof. unfold do_center. intros H. err_tac H. Qed.
+
+Lemma setters_err w o w' e :
+  match o with
+  | OSetXyzNew _ _ _ | OSetXyzShare _ _ | OSetTimeNew _ _ | OSetTimeShare _ _ | OSetLengths _ _ | OSetAngles _ _
+  | OSetVectors _ _ _ => True
+  | _ => False
+  end -> forall v, step v w o = (w', RErr e) -> w' = w.
+Proof.
+  destruct o; intros G v H; try contradiction; cbn [step] in H;
+    unfold do_set_xyz_new, do_set_xyz_share, do_set_time_new, do_set_time_share, do_set_cell_part, do_set_vectors in H;
+    err_tac H.
+Qed.
+
+(* ------------------------------------------------------------------ every step keeps the world well-formed *)
+Lemma get_all_In w rs ts : get_all w rs = Some ts -> forall t, In t ts -> In t (trajs w).
+Proof.
+  revert ts; induction rs as [|r rest IH]; intros ts H t Hin; cbn in H.
+  - inversion H; subst. destruct Hin.
+  - destruct (nth_error (trajs w) r) eqn:E; [|discriminate]. destruct (get_all w rest) eqn:G; [|discriminate].
+    inversion H; subst. destruct Hin as [<-|Hin]; [eapply nth_error_In; eauto|eapply IH; eauto].
+Qed.
+
+Lemma reg_ok_set_tr w t c : reg_ok w t -> oarr_below (nbuf w) c -> reg_ok w (set_tr t c).
+Proof. intros [H1 H2] Hc. split; [exact H1|]. unfold set_tr. ids_tac. Qed.
+
+Lemma step_wf v w o w' r : wf w -> step v w o = (w', r) -> wf w'.
+Proof.
+  intros Hwf H. destruct o; cbn [step] in H.
+  - (* slice *) destruct r as [|e]; [|apply slice_err in H; subst; auto].
+    destruct (nth_error (trajs w) r0) as [t|] eqn:Hr; [|unfold do_slice in H; rewrite Hr in H; discriminate].
+    destruct (slice_ok _ _ _ _ _ _ _ Hwf Hr H) as [t' [xi [xs [_ [Ht [He [_ [_ [_ [_ [_ [_ [_ [Hreg _]]]]]]]]]]]]]].
+    eapply wf_of_new; eauto.
+  - (* join *) destruct r as [|e]; [|apply join_err in H; subst; auto].
+    unfold do_join in H. destruct (nth_error (trajs w) r0) as [t|]; [|discriminate].
+    destruct (get_all w others) as [os|]; [|discriminate].
+    destruct (join_trajs_ok _ _ _ _ _ Hwf H) as [t' [Ht [He [_ [_ [_ [_ [_ [_ [_ [Hreg _]]]]]]]]]]].
+    eapply wf_of_new; eauto.
+  - (* md.join *) destruct r as [|e]; [|apply mdjoin_err in H; subst; auto].
+    unfold do_mdjoin in H. destruct (get_all w rs) as [[|t [|o rest]]|]; try discriminate.
+    destruct (join_trajs_ok _ _ _ _ _ Hwf H) as [t' [Ht [He [_ [_ [_ [_ [_ [_ [_ [Hreg _]]]]]]]]]]].
+    eapply wf_of_new; eauto.
+  - (* stack *) destruct r as [|e]; [|apply stack_err in H; subst; auto].
+    destruct (nth_error (trajs w) r0) as [t|] eqn:Hr; [|unfold do_stack in H; rewrite Hr in H; discriminate].
+    destruct (nth_error (trajs w) r') as [o|] eqn:Hr'; [|unfold do_stack in H; rewrite Hr, Hr' in H; discriminate].
+    destruct (stack_ok _ _ _ _ _ _ Hwf Hr Hr' H) as [t' [Ht [He [_ [_ [_ [_ [_ [_ [_ [_ [Hreg _]]]]]]]]]]]].
+    eapply wf_of_new; eauto.
+  - (* atom_slice *) destruct r as [|e]; [|apply atom_slice_err in H; subst; auto].
+    destruct (nth_error (trajs w) r0) as [t|] eqn:Hr; [|unfold do_atom_slice in H; rewrite Hr in H; discriminate].
+    destruct inplace.
+    + destruct (atom_slice_inplace_ok _ _ _ _ _ _ Hwf Hr H) as [t' [ni [_ [Ht [He [_ [_ [_ [_ [_ [_ [_ [_ [Hreg _]]]]]]]]]]]]]].
+      eapply wf_of_upd; eauto.
+    + destruct (atom_slice_new_ok _ _ _ _ _ _ Hwf Hr H) as [t' [ni [_ [Ht [He [_ [_ [_ [_ [_ [_ [_ [Hreg _]]]]]]]]]]]]].
+      eapply wf_of_new; eauto.
+  - (* remove_solvent *) destruct r as [|e]; [|apply remove_solvent_err in H; subst; auto].
+    unfold do_remove_solvent in H.
+    destruct (nth_error (trajs w) r0) as [t|] eqn:Hr; [|discriminate].
+    destruct inplace.
+    + destruct (atom_slice_inplace_ok _ _ _ _ _ _ Hwf Hr H) as [t' [ni [_ [Ht [He [_ [_ [_ [_ [_ [_ [_ [_ [Hreg _]]]]]]]]]]]]]].
+      eapply wf_of_upd; eauto.
+    + destruct (atom_slice_new_ok _ _ _ _ _ _ Hwf Hr H) as [t' [ni [_ [Ht [He [_ [_ [_ [_ [_ [_ [_ [Hreg _]]]]]]]]]]]]].
+      eapply wf_of_new; eauto.
+  - (* center *) destruct r as [|e]; [|apply center_err in H; subst; auto].
+    unfold do_center in H. destruct (nth_error (trajs w) r0) as [t|] eqn:Hr; [|discriminate].
+    pose proof (wf_lookup _ _ _ Hwf Hr) as Hreg.
+    destruct mass_weighted.
+    + destruct (Nat.eqb (length (kinds t)) (na t)); cbn [negb] in H; [|discriminate]. inversion H; subst.
+      apply (wf_put (write_x w (xb t) (xp t) (map (CenM (kinds t)) (frames w t)))); [apply wf_write; auto|apply ext_refl|].
+      apply reg_ok_set_tr; [apply reg_ok_write; auto|cbn; auto].
+    + destruct (Nat.eqb (nframes t) 0); [discriminate|].
+      destruct (new_arr (write_x w (xb t) (xp t) (map cen (frames w t))) (map cen (frames w t))) as [w2 c] eqn:N.
+      inversion H; subst. apply new_arr_spec in N. destruct N as [N1 [N2 [N3 _]]].
+      apply (wf_put (write_x w (xb t) (xp t) (map cen (frames w t)))); [apply wf_write; auto|exact N1|].
+      apply reg_ok_set_tr; [eapply hext_reg_ok; [apply ext_hext; exact N1|apply reg_ok_write; auto]|cbn; lia].
+  - (* superpose *) unfold do_superpose in H.
+    destruct (nth_error (trajs w) r0) as [t|] eqn:Hr; [|inversion H; subst; auto].
+    destruct (nth_error (trajs w) ref) as [q|] eqn:Hq; [|inversion H; subst; auto].
+    destruct (norm_index (nframes q) frame); [|inversion H; subst; auto].
+    pose proof (wf_lookup _ _ _ Hwf Hr) as Hreg.
+    destruct (Nat.eqb (na t) (na q)); cbn [negb] in H; [|inversion H; subst; apply wf_write; auto].
+    destruct (Nat.eqb (length (kinds t)) (na t)); cbn [negb] in H; [|inversion H; subst; apply wf_write; auto].
+    inversion H; subst.
+    match goal with |- wf (put ?W _ _) => apply (wf_put W); [apply wf_write; auto|apply ext_refl|] end.
+    apply reg_ok_set_tr; [apply reg_ok_write; auto|cbn; auto].
+  - (* xyz = new array *) unfold do_set_xyz_new in H.
+    destruct (nth_error (trajs w) r0) as [t|] eqn:Hr; [|inversion H; subst; auto].
+    destruct (Nat.eqb (length (kinds t)) natoms); cbn [negb] in H; [|inversion H; subst; auto].
+    destruct (fresh_src w) as [w1 s] eqn:S. destruct (alloc_x w1 _) as [w2 b] eqn:A. inversion H; subst.
+    apply fresh_src_spec in S. destruct S as [S1 [S2 [S3 S4]]].
+    apply alloc_x_spec in A. destruct A as [A1 [A2 [A3 [A4 [A5 [A6 A7]]]]]].
+    apply (wf_put w); [auto|eapply ext_trans; eauto|].
+    destruct (wf_lookup _ _ _ Hwf Hr) as [_ Hids]. split.
+    + unfold set_x, traj_wf. cbn [xb xp]. rewrite A3, map_length, seq_length.
+      destruct (seq_wf_view m). splits; auto.
+    + unfold set_x. ids_tac.
+  - (* xyz = other's array *) unfold do_set_xyz_share in H.
+    destruct (nth_error (trajs w) r0) as [t|] eqn:Hr; [|inversion H; subst; auto].
+    destruct (nth_error (trajs w) r') as [o|] eqn:Hr'; [|inversion H; subst; auto].
+    destruct (Nat.eqb (length (kinds t)) (na o)); cbn [negb] in H; inversion H; subst; auto.
+    apply (wf_put w); [auto|apply ext_refl|].
+    destruct (wf_lookup _ _ _ Hwf Hr) as [_ Hids]. destruct (wf_lookup _ _ _ Hwf Hr') as [Hwo _]. split.
+    + exact Hwo.
+    + unfold set_x. ids_tac.
+  - (* time = new array *) unfold do_set_time_new in H.
+    destruct (nth_error (trajs w) r0) as [t|] eqn:Hr; [|inversion H; subst; auto].
+    destruct (Nat.eqb m (nframes t)); cbn [negb] in H; [|inversion H; subst; auto].
+    destruct (fresh_src w) as [w1 s] eqn:S. destruct (new_arr w1 _) as [w2 a] eqn:A. inversion H; subst.
+    apply fresh_src_spec in S. destruct S as [S1 [S2 [S3 S4]]].
+    apply new_arr_spec in A. destruct A as [A1 [A2 [A3 [A4 [A5 [A6 A7]]]]]].
+    apply (wf_put w); [auto|eapply ext_trans; eauto|].
+    destruct (wf_lookup _ _ _ Hwf Hr) as [[T1 [T2 T3]] Hids]. split.
+    + unfold set_tm, traj_wf, buf_of in *. cbn [xb xp]. rewrite A6, S2. auto.
+    + unfold set_tm. ids_tac.
+  - (* time = other's array *) unfold do_set_time_share in H.
+    destruct (nth_error (trajs w) r0) as [t|] eqn:Hr; [|inversion H; subst; auto].
+    destruct (nth_error (trajs w) r') as [o|] eqn:Hr'; [|inversion H; subst; auto].
+    destruct (Nat.eqb (length (a_val (tm o))) (nframes t)); cbn [negb] in H; inversion H; subst; auto.
+    apply (wf_put w); [auto|apply ext_refl|].
+    destruct (wf_lookup _ _ _ Hwf Hr) as [Hwt Hids]. destruct (wf_lookup _ _ _ Hwf Hr') as [_ Hio]. split.
+    + exact Hwt.
+    + unfold set_tm. ids_tac.
+  - (* unitcell_lengths = *) unfold do_set_cell_part in H.
+    destruct (nth_error (trajs w) r0) as [t|] eqn:Hr; [|inversion H; subst; auto].
+    destruct (wf_lookup _ _ _ Hwf Hr) as [[T1 [T2 T3]] Hids].
+    destruct m as [m|].
+    + destruct (Nat.eqb m (nframes t)); cbn [negb] in H; [|inversion H; subst; auto].
+      destruct (fresh_src w) as [w1 s] eqn:S. destruct (new_arr w1 _) as [w2 a] eqn:A. inversion H; subst.
+      apply fresh_src_spec in S. destruct S as [S1 [S2 [S3 S4]]].
+      apply new_arr_spec in A. destruct A as [A1 [A2 [A3 [A4 [A5 [A6 A7]]]]]].
+      apply (wf_put w); [auto|eapply ext_trans; eauto|]. split.
+      * unfold set_cell, traj_wf, buf_of in *. cbn [xb xp]. rewrite A6, S2. auto.
+      * unfold set_cell. ids_tac.
+    + inversion H; subst. apply (wf_put w); [auto|apply ext_refl|]. split; [exact (conj T1 (conj T2 T3))|unfold set_cell; ids_tac].
+  - (* unitcell_angles = *) unfold do_set_cell_part in H.
+    destruct (nth_error (trajs w) r0) as [t|] eqn:Hr; [|inversion H; subst; auto].
+    destruct (wf_lookup _ _ _ Hwf Hr) as [[T1 [T2 T3]] Hids].
+    destruct m as [m|].
+    + destruct (Nat.eqb m (nframes t)); cbn [negb] in H; [|inversion H; subst; auto].
+      destruct (fresh_src w) as [w1 s] eqn:S. destruct (new_arr w1 _) as [w2 a] eqn:A. inversion H; subst.
+      apply fresh_src_spec in S. destruct S as [S1 [S2 [S3 S4]]].
+      apply new_arr_spec in A. destruct A as [A1 [A2 [A3 [A4 [A5 [A6 A7]]]]]].
+      apply (wf_put w); [auto|eapply ext_trans; eauto|]. split.
+      * unfold set_cell, traj_wf, buf_of in *. cbn [xb xp]. rewrite A6, S2. auto.
+      * unfold set_cell. ids_tac.
+    + inversion H; subst. apply (wf_put w); [auto|apply ext_refl|]. split; [exact (conj T1 (conj T2 T3))|unfold set_cell; ids_tac].
+  - (* unitcell_vectors = *) unfold do_set_vectors in H.
+    destruct (nth_error (trajs w) r0) as [t|] eqn:Hr; [|inversion H; subst; auto].
+    destruct (wf_lookup _ _ _ Hwf Hr) as [[T1 [T2 T3]] Hids].
+    assert (Hdrop : wf (put w r0 (set_cell t None None))).
+    { apply (wf_put w); [auto|apply ext_refl|]. split; [exact (conj T1 (conj T2 T3))|unfold set_cell; ids_tac]. }
+    destruct m as [m|]; [|inversion H; subst; exact Hdrop].
+    destruct (allzero || Nat.eqb m 0); [inversion H; subst; exact Hdrop|].
+    destruct (Nat.eqb m (nframes t)); cbn [negb] in H; [|inversion H; subst; auto].
+    destruct (fresh_src w) as [w1 s] eqn:S. destruct (new_arr w1 _) as [w2 l] eqn:A.
+    destruct (new_arr w2 _) as [w3 a] eqn:B. inversion H; subst.
+    apply fresh_src_spec in S. destruct S as [S1 [S2 [S3 S4]]].
+    apply new_arr_spec in A. destruct A as [A1 [A2 [A3 [A4 [A5 [A6 A7]]]]]].
+    apply new_arr_spec in B. destruct B as [B1 [B2 [B3 [B4 [B5 [B6 B7]]]]]].
+    apply (wf_put w); [auto|eapply ext_trans; [exact S1|eapply ext_trans; eauto]|]. split.
+    + unfold set_cell, traj_wf, buf_of in *. cbn [xb xp]. rewrite B6, A6, S2. auto.
+    + unfold set_cell. ids_tac.
+Qed.
+
+(* ------------------------------------------------------------------ histories: well-formedness *)
+Lemma run_wf v ops : forall w, wf w -> wf (fst (run v w ops)).
+Proof.
+  induction ops as [|o rest IH]; intros w Hw; cbn [run]; [exact Hw|].
+  destruct (step v w o) as [w1 x] eqn:S. specialize (IH w1 (step_wf _ _ _ _ _ Hw S)).
+  destruct (run v w1 rest) as [w2 xs]. exact IH.
+Qed.
+
+Lemma load_wf w sp : wf w -> wf (load w sp).
+Proof.
+  intros Hw. destruct sp as [[[n chs] cell] etime]. unfold load.
+  destruct (fresh_src w) as [w1 s] eqn:S. destruct (alloc_x w1 _) as [w2 b] eqn:A.
+  destruct (fresh_top w2) as [w3 tl] eqn:T. destruct (new_arr w3 _) as [w4 tm'] eqn:N4.
+  lazymatch goal with |- wf (let '(_, _) := ?e in _) => destruct e as [w5 l] eqn:N5 end.
+  lazymatch goal with |- wf (let '(_, _) := ?e in _) => destruct e as [w6 a] eqn:N6 end.
+  apply fresh_src_spec in S. destruct S as [S1 [S2 [S3 S4]]].
+  apply alloc_x_spec in A. destruct A as [A1 [A2 [A3 [A4 [A5 [A6 A7]]]]]].
+  apply fresh_top_spec in T. destruct T as [P1 [P2 [P3 [P4 P5]]]].
+  apply new_arr_spec in N4. destruct N4 as [B1 [B2 [B3 [B4 [B5 [B6 B7]]]]]].
+  assert (E5 : ext w4 w5 /\ hx w5 = hx w4 /\ ntop w5 = ntop w4 /\ nbuf w4 <= nbuf w5 /\ oarr_below (nbuf w5) l).
+  { destruct cell.
+    - destruct (new_arr w4 _) as [wa c] eqn:Nc. inversion N5; subst. apply new_arr_spec in Nc.
+      destruct Nc as [Q1 [Q2 [Q3 [Q4 [Q5 [Q6 Q7]]]]]]. splits; auto; cbn; lia.
+    - inversion N5; subst. splits; cbn; auto. apply ext_refl. }
+  destruct E5 as [E5 [H5 [T5 [N5' O5]]]].
+  assert (E6 : ext w5 w6 /\ hx w6 = hx w5 /\ ntop w6 = ntop w5 /\ nbuf w5 <= nbuf w6 /\ oarr_below (nbuf w6) a).
+  { destruct cell.
+    - destruct (new_arr w5 _) as [wa c] eqn:Nc. inversion N6; subst. apply new_arr_spec in Nc.
+      destruct Nc as [Q1 [Q2 [Q3 [Q4 [Q5 [Q6 Q7]]]]]]. splits; auto; cbn; lia.
+    - inversion N6; subst. splits; cbn; auto. apply ext_refl. }
+  destruct E6 as [E6 [H6 [T6 [N6' O6]]]].
+  assert (Eall : ext w w6).
+  { eapply ext_trans; [exact S1|]. eapply ext_trans; [exact A1|]. eapply ext_trans; [exact P1|].
+    eapply ext_trans; [exact B1|]. eapply ext_trans; eauto. }
+  apply (wf_push w); [exact Hw|exact Eall|]. split.
+  - unfold traj_wf, buf_of. cbn [xb xp]. rewrite H6, H5, B6, P4. fold (buf_of w2 b). rewrite A3, map_length, seq_length.
+    destruct (seq_wf_view n). splits; auto.
+  - ids_tac.
+Qed.
+
+Lemma init_wf sps : wf (init_world sps).
+Proof.
+  unfold init_world. assert (H : wf empty_world) by constructor.
+  revert H. generalize empty_world. induction sps as [|sp rest IH]; intros w Hw; cbn; auto.
+  apply IH. apply load_wf. exact Hw.
+Qed.
+
+(* ------------------------------------------------------------------ the cache invariant *)
+Definition cinv (w : world) : Prop := Forall (fun t => cache_ok w t = true) (trajs w).
+
+Lemma cinv_of_new w w' t' :
+  wf w -> cinv w -> trajs w' = trajs w ++ [t'] -> hext w w' -> cache_ok w' t' = true -> cinv w'.
+Proof.
+  intros Hw Hc Ht He Hn. unfold cinv. rewrite Ht. apply Forall_app. split; [|constructor; auto].
+  unfold cinv, wf in *. rewrite Forall_forall in *. intros t0 Hin.
+  rewrite (cache_ok_ext w w'); [apply Hc; auto|]. apply hext_frames; auto. destruct (Hw t0 Hin) as [[? _] _]. auto.
+Qed.
+
+Lemma cinv_of_upd w w' r t' :
+  wf w -> cinv w -> trajs w' = set_nth r t' (trajs w) -> hext w w' -> cache_ok w' t' = true -> cinv w'.
+Proof.
+  intros Hw Hc Ht He Hn. unfold cinv. rewrite Ht. rewrite Forall_forall. intros t0 Hin.
+  apply In_set_nth in Hin. destruct Hin as [->|Hin]; [exact Hn|].
+  unfold cinv, wf in *. rewrite Forall_forall in *.
+  rewrite (cache_ok_ext w w'); [apply Hc; auto|]. apply hext_frames; auto. destruct (Hw t0 Hin) as [[? _] _]. auto.
+Qed.
+
+Lemma cinv_lookup w r t : cinv w -> nth_error (trajs w) r = Some t -> cache_ok w t = true.
+Proof. intros Hc Hr. unfold cinv in Hc. rewrite Forall_forall in Hc. apply Hc. eapply nth_error_In; eauto. Qed.
+
+Lemma cache_ok_inv w t c : tr t = Some c -> cache_ok w t = true ->
+  a_val c = frames w t /\ Forall (fun x => is_cen x = true) (frames w t).
+Proof. intros H1 H2. unfold cache_ok in H2. rewrite H1 in H2. apply cache_match_iff in H2. exact H2. Qed.
+
+Lemma Forall_sel {A} (P : A -> Prop) d l idx :
+  Forall P l -> Forall (fun i => i < length l) idx -> Forall P (sel d l idx).
+Proof.
+  intros Hl Hi. unfold sel. rewrite Forall_forall in *. intros x Hx. apply in_map_iff in Hx.
+  destruct Hx as [i [<- Hin]]. apply Hl. apply nth_In. auto.
+Qed.
+
+(* positions enumerated by combine (seq 0 n) l *)
+Lemma In_combine_seq {A} (l : list A) k i x :
+  In (i, x) (combine (seq k (length l)) l) <-> (k <= i /\ nth_error l (i - k) = Some x).
+Proof.
+  revert k; induction l as [|y r IH]; intros k; cbn.
+  - split; [tauto|]. intros [_ H]. destruct (i - k); discriminate.
+  - split.
+    + intros [H|H].
+      * inversion H; subst. split; [lia|]. now rewrite Nat.sub_diag.
+      * apply IH in H. destruct H as [H1 H2]. split; [lia|].
+        replace (i - k) with (S (i - S k)) by lia. exact H2.
+    + intros [H1 H2]. destruct (Nat.eq_dec i k) as [->|Hne].
+      * rewrite Nat.sub_diag in H2. cbn in H2. inversion H2; subst. left; reflexivity.
+      * right. apply IH. split; [lia|]. replace (i - k) with (S (i - S k)) in H2 by lia. exact H2.
+Qed.
+
+Lemma inplace_safe_spec w r t :
+  nth_error (trajs w) r = Some t -> inplace_safe w r = true ->
+  forall i o, nth_error (trajs w) i = Some o -> i = r \/ overlap (xb t) (xp t) (xb o) (xp o) = false \/ tr o = None.
+Proof.
+  intros Hr H i o Hi. unfold inplace_safe in H. rewrite Hr in H. rewrite forallb_forall in H.
+  specialize (H (i, o)). cbn beta iota in H.
+  assert (Hin : In (i, o) (combine (seq 0 (length (trajs w))) (trajs w))).
+  { apply In_combine_seq. split; [lia|]. now rewrite Nat.sub_0_r. }
+  specialize (H Hin). apply orb_true_iff in H. destruct H as [H|H].
+  - apply orb_true_iff in H. destruct H as [H|H].
+    + left. apply Nat.eqb_eq. exact H.
+    + right; left. destruct (overlap _ _ _ _); auto; discriminate.
+  - right; right. destruct (tr o); auto; discriminate.
+Qed.
+
+(* an in-place write through register r, followed by re-binding r, keeps every other cache valid
+   when the guard holds *)
+Lemma cinv_inplace w r t vs w2 t'' :
+  wf w -> cinv w -> nth_error (trajs w) r = Some t -> inplace_safe w r = true ->
+  hx w2 = hx (write_x w (xb t) (xp t) vs) -> trajs w2 = set_nth r t'' (trajs w) ->
+  cache_ok w2 t'' = true -> cinv w2.
+Proof.
+  intros Hw Hc Hr Hs Hh Ht Hn. unfold cinv. rewrite Forall_forall. intros t0 Hin.
+  apply In_nth_error in Hin. destruct Hin as [i Hi]. rewrite Ht in Hi.
+  destruct (Nat.eq_dec r i) as [->|Hne].
+  - rewrite nth_error_set_nth_same in Hi by (apply nth_error_Some; congruence). inversion Hi; subst. exact Hn.
+  - rewrite nth_error_set_nth_other in Hi by exact Hne.
+    destruct (inplace_safe_spec _ _ _ Hr Hs i t0 Hi) as [E|[E|E]]; [congruence| |apply cache_ok_none; exact E].
+    assert (F : frames w2 t0 = frames w t0).
+    { transitivity (frames (write_x w (xb t) (xp t) vs) t0).
+      - unfold frames, buf_of. now rewrite Hh.
+      - apply frames_write_disjoint. exact E. }
+    rewrite (cache_ok_ext w w2 t0 F). eapply cinv_lookup; eauto.
+Qed.
+
+(* The guard of the cache theorem.  An in-place coordinate change (center_coordinates, superpose) must not be
+   visible through another register that holds a cache; and superpose is only considered on a register whose
+   topology and coordinates agree on the number of atoms (otherwise the xyz setter raises AFTER the in-place
+   write and the register keeps its cache; such registers only arise from atom_slice(inplace=True) with
+   repeated or negative indices). *)
+Definition top_consistent (w : world) (r : nat) : bool :=
+  match nth_error (trajs w) r with Some t => Nat.eqb (length (kinds t)) (na t) | None => true end.
+Definition inplace_guard (w : world) (o : op) : bool :=
+  match o with
+  | OCenter r _ => inplace_safe w r
+  | OSuperpose r _ _ => inplace_safe w r && top_consistent w r
+  | _ => true
+  end.
+
+Lemma slice_cache_fix (w w' : world) (k : key) t t' xi xs :
+  cache_ok w t = true ->
+  key_positions (nframes t) k = inr (xi, xs) ->
+  frames w' t' = sel dfr (frames w t) xi ->
+  traces_sliced v_fix k w (tr t) (tr t') ->
+  cache_ok w' t' = true.
+Proof.
+  intros Hc Kx Hf Ht. unfold traces_sliced in Ht. destruct (tr t) as [c|] eqn:Etr.
+  - cbn [slice_indexes_traces v_fix] in Ht.
+    destruct (cache_ok_inv _ _ _ Etr Hc) as [Hv Hcen].
+    assert (Hl : length (a_val c) = nframes t) by (rewrite Hv; apply length_frames).
+    rewrite Hl, Kx in Ht. destruct Ht as [c' [E1 [E2 _]]].
+    apply (cache_ok_self w' t' c' (sel dfr (frames w t) xi) E1).
+    + rewrite E2, Hv. reflexivity.
+    + exact Hf.
+    + apply Forall_sel; auto. pose proof (key_positions_lt _ _ _ _ Kx) as Hlt.
+      rewrite length_frames. exact Hlt.
+  - apply cache_ok_none. exact Ht.
+Qed.
+
+Ltac upd_tac :=
+  match goal with
+  | Hwf : wf ?w, Hc : cinv ?w |- cinv (put _ ?r ?t2) => apply (cinv_of_upd w _ r t2 Hwf Hc)
+  end.
+
+Lemma step_cinv w o w' r :
+  wf w -> cinv w -> inplace_guard w o = true -> step v_fix w o = (w', r) -> cinv w'.
+Proof.
+  intros Hwf Hc Hg H. destruct o; cbn [step] in H.
+  - (* slice *) destruct r as [|e]; [|apply slice_err in H; subst; auto].
+    destruct (nth_error (trajs w) r0) as [t|] eqn:Hr; [|unfold do_slice in H; rewrite Hr in H; discriminate].
+    destruct (slice_ok _ _ _ _ _ _ _ Hwf Hr H) as [t' [xi [xs [Kx [Ht [He [Hf [_ [_ [_ [_ [_ [_ [_ [Htr _]]]]]]]]]]]]]]].
+    eapply cinv_of_new; eauto. eapply slice_cache_fix; eauto. eapply cinv_lookup; eauto.
+  - (* join *) destruct r as [|e]; [|apply join_err in H; subst; auto].
+    unfold do_join in H. destruct (nth_error (trajs w) r0) as [t|]; [|discriminate].
+    destruct (get_all w others) as [os|]; [|discriminate].
+    destruct (join_trajs_ok _ _ _ _ _ Hwf H) as [t' [Ht [He [_ [_ [_ [_ [_ [Htr _]]]]]]]]].
+    eapply cinv_of_new; eauto. apply cache_ok_none; auto.
+  - (* md.join *) destruct r as [|e]; [|apply mdjoin_err in H; subst; auto].
+    unfold do_mdjoin in H. destruct (get_all w rs) as [[|t [|o rest]]|]; try discriminate.
+    destruct (join_trajs_ok _ _ _ _ _ Hwf H) as [t' [Ht [He [_ [_ [_ [_ [_ [Htr _]]]]]]]]].
+    eapply cinv_of_new; eauto. apply cache_ok_none; auto.
+  - (* stack *) destruct r as [|e]; [|apply stack_err in H; subst; auto].
+    destruct (nth_error (trajs w) r0) as [t|] eqn:Hr; [|unfold do_stack in H; rewrite Hr in H; discriminate].
+    destruct (nth_error (trajs w) r') as [o|] eqn:Hr'; [|unfold do_stack in H; rewrite Hr, Hr' in H; discriminate].
+    destruct (stack_ok _ _ _ _ _ _ Hwf Hr Hr' H) as [t' [Ht [He [_ [_ [_ [_ [_ [_ [Htr _]]]]]]]]]].
+    eapply cinv_of_new; eauto. apply cache_ok_none; auto.
+  - (* atom_slice *) destruct r as [|e]; [|apply atom_slice_err in H; subst; auto].
+    destruct (nth_error (trajs w) r0) as [t|] eqn:Hr; [|unfold do_atom_slice in H; rewrite Hr in H; discriminate].
+    destruct inplace.
+    + destruct (atom_slice_inplace_ok _ _ _ _ _ _ Hwf Hr H) as [t' [ni [_ [Ht [He [_ [_ [_ [_ [_ [_ [Htr _]]]]]]]]]]]].
+      eapply cinv_of_upd; eauto. apply cache_ok_none; auto.
+    + destruct (atom_slice_new_ok _ _ _ _ _ _ Hwf Hr H) as [t' [ni [_ [Ht [He [_ [_ [_ [_ [_ [Htr _]]]]]]]]]]].
+      eapply cinv_of_new; eauto. apply cache_ok_none; auto.
+  - (* remove_solvent *) destruct r as [|e]; [|apply remove_solvent_err in H; subst; auto].
+    unfold do_remove_solvent in H.
+    destruct (nth_error (trajs w) r0) as [t|] eqn:Hr; [|discriminate].
+    destruct inplace.
+    + destruct (atom_slice_inplace_ok _ _ _ _ _ _ Hwf Hr H) as [t' [ni [_ [Ht [He [_ [_ [_ [_ [_ [_ [Htr _]]]]]]]]]]]].
+      eapply cinv_of_upd; eauto. apply cache_ok_none; auto.
+    + destruct (atom_slice_new_ok _ _ _ _ _ _ Hwf Hr H) as [t' [ni [_ [Ht [He [_ [_ [_ [_ [_ [Htr _]]]]]]]]]]].
+      eapply cinv_of_new; eauto. apply cache_ok_none; auto.
+  - (* center *) destruct r as [|e]; [|apply center_err in H; subst; auto].
+    cbn [inplace_guard] in Hg.
+    unfold do_center in H. destruct (nth_error (trajs w) r0) as [t|] eqn:Hr; [|discriminate].
+    destruct (wf_lookup _ _ _ Hwf Hr) as [Hwt _].
+    destruct mass_weighted.
+    + destruct (Nat.eqb (length (kinds t)) (na t)); cbn [negb] in H; [|discriminate]. inversion H; subst.
+      apply (cinv_inplace w r0 t (map (CenM (kinds t)) (frames w t)) _ (set_tr t None) Hwf Hc Hr Hg);
+        [reflexivity|reflexivity|apply cache_ok_none; reflexivity].
+    + destruct (Nat.eqb (nframes t) 0); [discriminate|].
+      destruct (new_arr (write_x w (xb t) (xp t) (map cen (frames w t))) (map cen (frames w t))) as [w2 c] eqn:N.
+      inversion H; subst. apply new_arr_spec in N. destruct N as [N1 [N2 [N3 [N4 [N5 [N6 N7]]]]]].
+      apply (cinv_inplace w r0 t (map cen (frames w t)) _ (set_tr t (Some c)) Hwf Hc Hr Hg);
+        [cbn [hx put]; exact N6|cbn [trajs put]; rewrite (ext_trajs _ _ N1); reflexivity|].
+      eapply cache_ok_self; [reflexivity|exact N4| |apply Forall_is_cen_map_cen].
+      unfold frames, buf_of. cbn [hx put xb xp set_tr]. rewrite N6.
+      apply (frames_write_same w t); auto. rewrite map_length. apply length_frames.
+  - (* superpose *) cbn [inplace_guard] in Hg. apply andb_true_iff in Hg. destruct Hg as [Hg Hcons].
+    unfold do_superpose in H.
+    destruct (nth_error (trajs w) r0) as [t|] eqn:Hr; [|inversion H; subst; auto].
+    destruct (nth_error (trajs w) ref) as [q|] eqn:Hq; [|inversion H; subst; auto].
+    destruct (norm_index (nframes q) frame); [|inversion H; subst; auto].
+    destruct (wf_lookup _ _ _ Hwf Hr) as [Hwt _].
+    unfold top_consistent in Hcons. rewrite Hr in Hcons.
+    assert (Hself : cinv (write_x w (xb t) (xp t) (map cen (frames w t)))).
+    { (* register r keeps its record; its cache stays valid because centred frames are rewritten unchanged *)
+      unfold cinv. rewrite Forall_forall. intros t0 Hin. cbn [trajs write_x] in Hin.
+      apply In_nth_error in Hin. destruct Hin as [i Hi].
+      destruct (inplace_safe_spec _ _ _ Hr Hg i t0 Hi) as [E|[E|E]].
+      - subst i. rewrite Hr in Hi. inversion Hi; subst t0.
+        pose proof (cinv_lookup _ _ _ Hc Hr) as Hct. unfold cache_ok in *. destruct (tr t) as [c|] eqn:Etr; auto.
+        rewrite (frames_write_same w t (map cen (frames w t)) Hwt) by (rewrite map_length; apply length_frames).
+        apply cache_match_iff in Hct. destruct Hct as [Hv Hcen].
+        assert (Hm : map cen (frames w t) = frames w t).
+        { clear -Hcen. induction Hcen as [|x l Hx Hl IH]; cbn; [reflexivity|]. now rewrite IH, (cen_fix x Hx). }
+        rewrite Hm. apply cache_match_iff. auto.
+      - rewrite (cache_ok_ext w _ t0); [eapply cinv_lookup; eauto|]. apply frames_write_disjoint. exact E.
+      - apply cache_ok_none. exact E. }
+    destruct (Nat.eqb (na t) (na q)); cbn [negb] in H.
+    + rewrite Hcons in H. cbn [negb] in H. inversion H; subst.
+      match goal with |- cinv (put (write_x _ _ _ ?vs) _ ?t2) =>
+        apply (cinv_inplace w r0 t vs _ t2 Hwf Hc Hr Hg); [reflexivity|reflexivity|apply cache_ok_none; reflexivity] end.
+    + inversion H; subst. exact Hself.
+  - (* xyz = new array *) unfold do_set_xyz_new in H.
+    destruct (nth_error (trajs w) r0) as [t|] eqn:Hr; [|inversion H; subst; auto].
+    destruct (Nat.eqb (length (kinds t)) natoms); cbn [negb] in H; [|inversion H; subst; auto].
+    destruct (fresh_src w) as [w1 s] eqn:S. destruct (alloc_x w1 _) as [w2 b] eqn:A. inversion H; subst.
+    apply fresh_src_spec in S. destruct S as [S1 _]. apply alloc_x_spec in A. destruct A as [A1 _].
+    assert (E : ext w w2) by (eapply ext_trans; eauto).
+    upd_tac.
+    + cbn [trajs put]. rewrite (ext_trajs _ _ E). reflexivity.
+    + eapply hext_trans; [apply ext_hext; exact E|apply hext_put].
+    + apply cache_ok_none. reflexivity.
+  - (* xyz = other's array *) unfold do_set_xyz_share in H.
+    destruct (nth_error (trajs w) r0) as [t|] eqn:Hr; [|inversion H; subst; auto].
+    destruct (nth_error (trajs w) r') as [o|] eqn:Hr'; [|inversion H; subst; auto].
+    destruct (Nat.eqb (length (kinds t)) (na o)); cbn [negb] in H; inversion H; subst; auto.
+    upd_tac; [reflexivity|apply hext_put|apply cache_ok_none; reflexivity].
+  - (* time = new array *) unfold do_set_time_new in H.
+    destruct (nth_error (trajs w) r0) as [t|] eqn:Hr; [|inversion H; subst; auto].
+    destruct (Nat.eqb m (nframes t)); cbn [negb] in H; [|inversion H; subst; auto].
+    destruct (fresh_src w) as [w1 s] eqn:S. destruct (new_arr w1 _) as [w2 a] eqn:A. inversion H; subst.
+    apply fresh_src_spec in S. destruct S as [S1 [S2 _]]. apply new_arr_spec in A. destruct A as [A1 [_ [_ [_ [_ [A6 _]]]]]].
+    assert (E : ext w w2) by (eapply ext_trans; eauto).
+    upd_tac.
+    + cbn [trajs put]. rewrite (ext_trajs _ _ E). reflexivity.
+    + eapply hext_trans; [apply ext_hext; exact E|apply hext_put].
+    + pose proof (cinv_lookup _ _ _ Hc Hr) as Hct. unfold cache_ok, frames, buf_of in *. cbn [hx put set_tm xb xp tr].
+      rewrite A6, S2. exact Hct.
+  - (* time = other's array *) unfold do_set_time_share in H.
+    destruct (nth_error (trajs w) r0) as [t|] eqn:Hr; [|inversion H; subst; auto].
+    destruct (nth_error (trajs w) r') as [o|] eqn:Hr'; [|inversion H; subst; auto].
+    destruct (Nat.eqb (length (a_val (tm o))) (nframes t)); cbn [negb] in H; inversion H; subst; auto.
+    upd_tac; [reflexivity|apply hext_put|].
+    pose proof (cinv_lookup _ _ _ Hc Hr) as Hct. exact Hct.
+  - (* unitcell_lengths = *) unfold do_set_cell_part in H.
+    destruct (nth_error (trajs w) r0) as [t|] eqn:Hr; [|inversion H; subst; auto].
+    pose proof (cinv_lookup _ _ _ Hc Hr) as Hct.
+    destruct m as [m|].
+    + destruct (Nat.eqb m (nframes t)); cbn [negb] in H; [|inversion H; subst; auto].
+      destruct (fresh_src w) as [w1 s] eqn:S. destruct (new_arr w1 _) as [w2 a] eqn:A. inversion H; subst.
+      apply fresh_src_spec in S. destruct S as [S1 [S2 _]]. apply new_arr_spec in A. destruct A as [A1 [_ [_ [_ [_ [A6 _]]]]]].
+      assert (E : ext w w2) by (eapply ext_trans; eauto).
+      upd_tac.
+      * cbn [trajs put]. rewrite (ext_trajs _ _ E). reflexivity.
+      * eapply hext_trans; [apply ext_hext; exact E|apply hext_put].
+      * unfold cache_ok, frames, buf_of in *. cbn [hx put set_cell xb xp tr]. rewrite A6, S2. exact Hct.
+    + inversion H; subst. upd_tac; [reflexivity|apply hext_put|exact Hct].
+  - (* unitcell_angles = *) unfold do_set_cell_part in H.
+    destruct (nth_error (trajs w) r0) as [t|] eqn:Hr; [|inversion H; subst; auto].
+    pose proof (cinv_lookup _ _ _ Hc Hr) as Hct.
+    destruct m as [m|].
+    + destruct (Nat.eqb m (nframes t)); cbn [negb] in H; [|inversion H; subst; auto].
+      destruct (fresh_src w) as [w1 s] eqn:S. destruct (new_arr w1 _) as [w2 a] eqn:A. inversion H; subst.
+      apply fresh_src_spec in S. destruct S as [S1 [S2 _]]. apply new_arr_spec in A. destruct A as [A1 [_ [_ [_ [_ [A6 _]]]]]].
+      assert (E : ext w w2) by (eapply ext_trans; eauto).
+      upd_tac.
+      * cbn [trajs put]. rewrite (ext_trajs _ _ E). reflexivity.
+      * eapply hext_trans; [apply ext_hext; exact E|apply hext_put].
+      * unfold cache_ok, frames, buf_of in *. cbn [hx put set_cell xb xp tr]. rewrite A6, S2. exact Hct.
+    + inversion H; subst. upd_tac; [reflexivity|apply hext_put|exact Hct].
+  - (* unitcell_vectors = *) unfold do_set_vectors in H.
+    destruct (nth_error (trajs w) r0) as [t|] eqn:Hr; [|inversion H; subst; auto].
+    pose proof (cinv_lookup _ _ _ Hc Hr) as Hct.
+    assert (Hdrop : cinv (put w r0 (set_cell t None None))).
+    { upd_tac; [reflexivity|apply hext_put|exact Hct]. }
+    destruct m as [m|]; [|inversion H; subst; exact Hdrop].
+    destruct (allzero || Nat.eqb m 0); [inversion H; subst; exact Hdrop|].
+    destruct (Nat.eqb m (nframes t)); cbn [negb] in H; [|inversion H; subst; auto].
+    destruct (fresh_src w) as [w1 s] eqn:S. destruct (new_arr w1 _) as [w2 l] eqn:A.
+    destruct (new_arr w2 _) as [w3 a] eqn:B. inversion H; subst.
+    apply fresh_src_spec in S. destruct S as [S1 [S2 _]]. apply new_arr_spec in A. destruct A as [A1 [_ [_ [_ [_ [A6 _]]]]]].
+    apply new_arr_spec in B. destruct B as [B1 [_ [_ [_ [_ [B6 _]]]]]].
+    assert (E : ext w w3) by (eapply ext_trans; [exact S1|eapply ext_trans; eauto]).
+    upd_tac.
+    + cbn [trajs put]. rewrite (ext_trajs _ _ E). reflexivity.
+    + eapply hext_trans; [apply ext_hext; exact E|apply hext_put].
+    + unfold cache_ok, frames, buf_of in *. cbn [hx put set_cell xb xp tr]. rewrite B6, A6, S2. exact Hct.
+Qed.
+
+Lemma init_cinv sps : cinv (init_world sps).
+Proof.
+  unfold init_world. assert (H : wf empty_world /\ cinv empty_world) by (split; constructor).
+  revert H. generalize empty_world. induction sps as [|sp rest IH]; intros w [Hw Hc]; cbn; auto.
+  apply IH. split; [apply load_wf; exact Hw|].
+  destruct sp as [[[n chs] cell] etime]. unfold load.
+  destruct (fresh_src w) as [w1 s] eqn:S. destruct (alloc_x w1 _) as [w2 b] eqn:A.
+  destruct (fresh_top w2) as [w3 tl] eqn:T. destruct (new_arr w3 _) as [w4 tm'] eqn:N4.
+  lazymatch goal with |- cinv (let '(_, _) := ?e in _) => destruct e as [w5 l] eqn:N5 end.
+  lazymatch goal with |- cinv (let '(_, _) := ?e in _) => destruct e as [w6 a] eqn:N6 end.
+  assert (E : hext w w6 /\ trajs w6 = trajs w).
+  { apply fresh_src_spec in S. destruct S as [S1 _]. apply alloc_x_spec in A. destruct A as [A1 _].
+    apply fresh_top_spec in T. destruct T as [P1 _]. apply new_arr_spec in N4. destruct N4 as [B1 _].
+    assert (E5 : ext w4 w5).
+    { destruct cell; [destruct (new_arr w4 _) as [wa c] eqn:Nc; inversion N5; subst; apply new_arr_spec in Nc; tauto|
+                      inversion N5; subst; apply ext_refl]. }
+    assert (E6 : ext w5 w6).
+    { destruct cell; [destruct (new_arr w5 _) as [wa c] eqn:Nc; inversion N6; subst; apply new_arr_spec in Nc; tauto|
+                      inversion N6; subst; apply ext_refl]. }
+    assert (Eall : ext w w6).
+    { eapply ext_trans; [exact S1|]. eapply ext_trans; [exact A1|]. eapply ext_trans; [exact P1|].
+      eapply ext_trans; [exact B1|]. eapply ext_trans; eauto. }
+    split; [apply ext_hext; exact Eall|apply ext_trajs; exact Eall]. }
+  destruct E as [E1 E2].
+  match goal with |- cinv (push ?w6 ?t') => apply (cinv_of_new w (push w6 t') t' Hw Hc) end.
+  - cbn [trajs push]. rewrite E2. reflexivity.
+  - eapply hext_trans; [exact E1|apply hext_push].
+  - apply cache_ok_none. reflexivity.
+Qed.
+
+(* guarded runs: the guard is evaluated in the state each operation meets *)
+Fixpoint guarded (g : world -> op -> bool) (v : variant) (w : world) (ops : list op) : bool :=
+  match ops with
+  | [] => true
+  | o :: rest => g w o && guarded g v (fst (step v w o)) rest
+  end.
+
+Lemma run_cinv ops : forall w, wf w -> cinv w -> guarded inplace_guard v_fix w ops = true ->
+  cinv (fst (run v_fix w ops)).
+Proof.
+  induction ops as [|o rest IH]; intros w Hw Hc Hg; cbn [run]; [exact Hc|].
+  cbn [guarded] in Hg. apply andb_true_iff in Hg. destruct Hg as [G1 G2].
+  destruct (step v_fix w o) as [w1 x] eqn:S. cbn [fst] in G2.
+  specialize (IH w1 (step_wf _ _ _ _ _ Hw S) (step_cinv _ _ _ _ Hw Hc G1 S) G2).
+  destruct (run v_fix w1 rest) as [w2 xs]. exact IH.
+Qed.
+
+(* ------------------------------------------------------------------ equal lengths of all per-frame fields *)
+Definition lens (w : world) : Prop := Forall (fun t => lengths_ok t = true) (trajs w).
+
+(* assigning xyz is the one operation of the alphabet that does not check the number of frames:
+   the length theorem is about histories whose xyz assignments keep it *)
+Definition xyz_guard (w : world) (o : op) : bool :=
+  match o with
+  | OSetXyzNew r m _ => match nth_error (trajs w) r with Some t => Nat.eqb m (nframes t) | None => true end
+  | OSetXyzShare r r' => match nth_error (trajs w) r, nth_error (trajs w) r' with
+                         | Some t, Some o => Nat.eqb (nframes o) (nframes t) | _, _ => true end
+  | _ => true
+  end.
+
+Lemma lens_of_new w w' t' : lens w -> trajs w' = trajs w ++ [t'] -> lengths_ok t' = true -> lens w'.
+Proof. intros Hl Ht Hn. unfold lens. rewrite Ht. apply Forall_app. split; [exact Hl|constructor; auto]. Qed.
+
+Lemma lens_of_upd w w' r t' : lens w -> trajs w' = set_nth r t' (trajs w) -> lengths_ok t' = true -> lens w'.
+Proof.
+  intros Hl Ht Hn. unfold lens in *. rewrite Ht. rewrite Forall_forall in *. intros t0 Hin.
+  apply In_set_nth in Hin. destruct Hin as [->|Hin]; auto.
+Qed.
+
+Lemma lens_lookup w r t : lens w -> nth_error (trajs w) r = Some t -> lengths_ok t = true.
+Proof. intros Hc Hr. unfold lens in Hc. rewrite Forall_forall in Hc. apply Hc. eapply nth_error_In; eauto. Qed.
+
+Lemma lengths_ok_same t t' :
+  nframes t' = nframes t -> tm t' = tm t -> ul t' = ul t -> ua t' = ua t -> lengths_ok t' = lengths_ok t.
+Proof. intros H1 H2 H3 H4. unfold lengths_ok. now rewrite H1, H2, H3, H4. Qed.
+
+Lemma step_lens v w o w' r :
+  wf w -> lens w -> xyz_guard w o = true -> step v w o = (w', r) -> lens w'.
+Proof.
+  intros Hwf Hl Hg H. destruct o; cbn [step] in H.
+  - destruct r as [|e]; [|apply slice_err in H; subst; auto].
+    destruct (nth_error (trajs w) r0) as [t|] eqn:Hr; [|unfold do_slice in H; rewrite Hr in H; discriminate].
+    destruct (slice_ok _ _ _ _ _ _ _ Hwf Hr H) as [t' [xi [xs [_ [Ht [_ [_ [_ [_ [_ [_ [_ [Hlen _]]]]]]]]]]]]].
+    eapply lens_of_new; eauto.
+  - destruct r as [|e]; [|apply join_err in H; subst; auto].
+    unfold do_join in H. destruct (nth_error (trajs w) r0) as [t|]; [|discriminate].
+    destruct (get_all w others) as [os|]; [|discriminate].
+    destruct (join_trajs_ok _ _ _ _ _ Hwf H) as [t' [Ht [_ [_ [_ [_ [_ [_ [_ [Hlen _]]]]]]]]]].
+    eapply lens_of_new; eauto.
+  - destruct r as [|e]; [|apply mdjoin_err in H; subst; auto].
+    unfold do_mdjoin in H. destruct (get_all w rs) as [[|t [|o rest]]|]; try discriminate.
+    destruct (join_trajs_ok _ _ _ _ _ Hwf H) as [t' [Ht [_ [_ [_ [_ [_ [_ [_ [Hlen _]]]]]]]]]].
+    eapply lens_of_new; eauto.
+  - destruct r as [|e]; [|apply stack_err in H; subst; auto].
+    destruct (nth_error (trajs w) r0) as [t|] eqn:Hr; [|unfold do_stack in H; rewrite Hr in H; discriminate].
+    destruct (nth_error (trajs w) r') as [o|] eqn:Hr'; [|unfold do_stack in H; rewrite Hr, Hr' in H; discriminate].
+    destruct (stack_ok _ _ _ _ _ _ Hwf Hr Hr' H) as [t' [Ht [_ [_ [_ [_ [_ [_ [_ [_ [Hlen _]]]]]]]]]]].
+    eapply lens_of_new; eauto.
+  - destruct r as [|e]; [|apply atom_slice_err in H; subst; auto].
+    destruct (nth_error (trajs w) r0) as [t|] eqn:Hr; [|unfold do_atom_slice in H; rewrite Hr in H; discriminate].
+    destruct inplace.
+    + destruct (atom_slice_inplace_ok _ _ _ _ _ _ Hwf Hr H) as [t' [ni [_ [Ht [_ [_ [E1 [E2 [E3 [_ [_ [_ [E4 _]]]]]]]]]]]]].
+      eapply lens_of_upd; eauto. rewrite (lengths_ok_same t t'); auto. eapply lens_lookup; eauto.
+    + destruct (atom_slice_new_ok _ _ _ _ _ _ Hwf Hr H) as [t' [ni [_ [Ht [_ [_ [_ [_ [_ [_ [_ [Hlen _]]]]]]]]]]]].
+      eapply lens_of_new; eauto.
+  - destruct r as [|e]; [|apply remove_solvent_err in H; subst; auto].
+    unfold do_remove_solvent in H.
+    destruct (nth_error (trajs w) r0) as [t|] eqn:Hr; [|discriminate].
+    destruct inplace.
+    + destruct (atom_slice_inplace_ok _ _ _ _ _ _ Hwf Hr H) as [t' [ni [_ [Ht [_ [_ [E1 [E2 [E3 [_ [_ [_ [E4 _]]]]]]]]]]]]].
+      eapply lens_of_upd; eauto. rewrite (lengths_ok_same t t'); auto. eapply lens_lookup; eauto.
+    + destruct (atom_slice_new_ok _ _ _ _ _ _ Hwf Hr H) as [t' [ni [_ [Ht [_ [_ [_ [_ [_ [_ [_ [Hlen _]]]]]]]]]]]].
+      eapply lens_of_new; eauto.
+  - destruct r as [|e]; [|apply center_err in H; subst; auto].
+    unfold do_center in H. destruct (nth_error (trajs w) r0) as [t|] eqn:Hr; [|discriminate].
+    pose proof (lens_lookup _ _ _ Hl Hr) as Hlt.
+    destruct mass_weighted.
+    + destruct (Nat.eqb (length (kinds t)) (na t)); cbn [negb] in H; [|discriminate]. inversion H; subst.
+      apply (lens_of_upd w _ r0 (set_tr t None)); auto.
+    + destruct (Nat.eqb (nframes t) 0); [discriminate|].
+      destruct (new_arr _ _) as [w2 c] eqn:N. inversion H; subst. apply new_arr_spec in N. destruct N as [N1 _].
+      apply (lens_of_upd w _ r0 (set_tr t (Some c))); auto. cbn [trajs put]. rewrite (ext_trajs _ _ N1). reflexivity.
+  - unfold do_superpose in H.
+    destruct (nth_error (trajs w) r0) as [t|] eqn:Hr; [|inversion H; subst; auto].
+    destruct (nth_error (trajs w) ref) as [q|] eqn:Hq; [|inversion H; subst; auto].
+    destruct (norm_index (nframes q) frame); [|inversion H; subst; auto].
+    pose proof (lens_lookup _ _ _ Hl Hr) as Hlt.
+    destruct (Nat.eqb (na t) (na q)); cbn [negb] in H; [|inversion H; subst; exact Hl].
+    destruct (Nat.eqb (length (kinds t)) (na t)); cbn [negb] in H; [|inversion H; subst; exact Hl].
+    inversion H; subst. apply (lens_of_upd w _ r0 (set_tr t None)); auto.
+  - cbn [xyz_guard] in Hg. unfold do_set_xyz_new in H.
+    destruct (nth_error (trajs w) r0) as [t|] eqn:Hr; [|inversion H; subst; auto].
+    destruct (Nat.eqb (length (kinds t)) natoms); cbn [negb] in H; [|inversion H; subst; auto].
+    destruct (fresh_src w) as [w1 s] eqn:S. destruct (alloc_x w1 _) as [w2 b] eqn:A. inversion H; subst.
+    apply fresh_src_spec in S. destruct S as [S1 _]. apply alloc_x_spec in A. destruct A as [A1 _].
+    apply (lens_of_upd w _ r0 (set_x t b (seq 0 m) natoms)); auto.
+    + cbn [trajs put]. rewrite (ext_trajs _ _ (ext_trans _ _ _ S1 A1)). reflexivity.
+    + apply Nat.eqb_eq in Hg. rewrite (lengths_ok_same t); auto; [eapply lens_lookup; eauto|].
+      unfold nframes, set_x. cbn [xp]. rewrite seq_length. exact Hg.
+  - cbn [xyz_guard] in Hg. unfold do_set_xyz_share in H.
+    destruct (nth_error (trajs w) r0) as [t|] eqn:Hr; [|inversion H; subst; auto].
+    destruct (nth_error (trajs w) r') as [o|] eqn:Hr'; [|inversion H; subst; auto].
+    destruct (Nat.eqb (length (kinds t)) (na o)); cbn [negb] in H; inversion H; subst; auto.
+    apply (lens_of_upd w _ r0 (set_x t (xb o) (xp o) (na o))); auto.
+    apply Nat.eqb_eq in Hg. rewrite (lengths_ok_same t); auto. eapply lens_lookup; eauto.
+  - unfold do_set_time_new in H.
+    destruct (nth_error (trajs w) r0) as [t|] eqn:Hr; [|inversion H; subst; auto].
+    destruct (Nat.eqb m (nframes t)) eqn:Em; cbn [negb] in H; [|inversion H; subst; auto].
+    destruct (fresh_src w) as [w1 s] eqn:S. destruct (new_arr w1 _) as [w2 a] eqn:A. inversion H; subst.
+    apply fresh_src_spec in S. destruct S as [S1 _]. apply new_arr_spec in A. destruct A as [A1 [_ [_ [A4 _]]]].
+    apply (lens_of_upd w _ r0 (set_tm t a)); auto.
+    + cbn [trajs put]. rewrite (ext_trajs _ _ (ext_trans _ _ _ S1 A1)). reflexivity.
+    + pose proof (lens_lookup _ _ _ Hl Hr) as Hlt. unfold lengths_ok, set_tm, nframes in *. cbn [tm ul ua xp].
+      rewrite A4, map_length, seq_length. apply Nat.eqb_eq in Em. rewrite Em, Nat.eqb_refl.
+      apply andb_true_iff in Hlt. destruct Hlt as [Hlt H3]. apply andb_true_iff in Hlt. destruct Hlt as [_ H2].
+      rewrite H2, H3. reflexivity.
+  - unfold do_set_time_share in H.
+    destruct (nth_error (trajs w) r0) as [t|] eqn:Hr; [|inversion H; subst; auto].
+    destruct (nth_error (trajs w) r') as [o|] eqn:Hr'; [|inversion H; subst; auto].
+    destruct (Nat.eqb (length (a_val (tm o))) (nframes t)) eqn:Em; cbn [negb] in H; inversion H; subst; auto.
+    apply (lens_of_upd w _ r0 (set_tm t (tm o))); auto.
+    pose proof (lens_lookup _ _ _ Hl Hr) as Hlt. unfold lengths_ok, set_tm, nframes in *. cbn [tm ul ua xp].
+    rewrite Em. apply andb_true_iff in Hlt. destruct Hlt as [Hlt H3]. apply andb_true_iff in Hlt. destruct Hlt as [_ H2].
+    rewrite H2, H3. reflexivity.
+  - unfold do_set_cell_part in H.
+    destruct (nth_error (trajs w) r0) as [t|] eqn:Hr; [|inversion H; subst; auto].
+    pose proof (lens_lookup _ _ _ Hl Hr) as Hlt.
+    apply andb_true_iff in Hlt. destruct Hlt as [Hlt H3]. apply andb_true_iff in Hlt. destruct Hlt as [H1 H2].
+    destruct m as [m|].
+    + destruct (Nat.eqb m (nframes t)) eqn:Em; cbn [negb] in H; [|inversion H; subst; auto].
+      destruct (fresh_src w) as [w1 s] eqn:S. destruct (new_arr w1 _) as [w2 a] eqn:A. inversion H; subst.
+      apply fresh_src_spec in S. destruct S as [S1 _]. apply new_arr_spec in A. destruct A as [A1 [_ [_ [A4 _]]]].
+      apply (lens_of_upd w _ r0 (set_cell t (Some a) (ua t))); auto.
+      * cbn [trajs put]. rewrite (ext_trajs _ _ (ext_trans _ _ _ S1 A1)). reflexivity.
+      * unfold lengths_ok, set_cell, nframes in *. cbn [tm ul ua xp]. rewrite A4, map_length, seq_length.
+        apply Nat.eqb_eq in Em. rewrite Em, Nat.eqb_refl, H1, H3. reflexivity.
+    + inversion H; subst. apply (lens_of_upd w _ r0 (set_cell t None (ua t))); auto.
+      unfold lengths_ok, set_cell, nframes in *. cbn [tm ul ua xp]. rewrite H1, H3. reflexivity.
+  - unfold do_set_cell_part in H.
+    destruct (nth_error (trajs w) r0) as [t|] eqn:Hr; [|inversion H; subst; auto].
+    pose proof (lens_lookup _ _ _ Hl Hr) as Hlt.
+    apply andb_true_iff in Hlt. destruct Hlt as [Hlt H3]. apply andb_true_iff in Hlt. destruct Hlt as [H1 H2].
+    destruct m as [m|].
+    + destruct (Nat.eqb m (nframes t)) eqn:Em; cbn [negb] in H; [|inversion H; subst; auto].
+      destruct (fresh_src w) as [w1 s] eqn:S. destruct (new_arr w1 _) as [w2 a] eqn:A. inversion H; subst.
+      apply fresh_src_spec in S. destruct S as [S1 _]. apply new_arr_spec in A. destruct A as [A1 [_ [_ [A4 _]]]].
+      apply (lens_of_upd w _ r0 (set_cell t (ul t) (Some a))); auto.
+      * cbn [trajs put]. rewrite (ext_trajs _ _ (ext_trans _ _ _ S1 A1)). reflexivity.
+      * unfold lengths_ok, set_cell, nframes in *. cbn [tm ul ua xp]. rewrite A4, map_length, seq_length.
+        apply Nat.eqb_eq in Em. rewrite Em, Nat.eqb_refl, H1, H2. reflexivity.
+    + inversion H; subst. apply (lens_of_upd w _ r0 (set_cell t (ul t) None)); auto.
+      unfold lengths_ok, set_cell, nframes in *. cbn [tm ul ua xp]. rewrite H1, H2. reflexivity.
+  - unfold do_set_vectors in H.
+    destruct (nth_error (trajs w) r0) as [t|] eqn:Hr; [|inversion H; subst; auto].
+    pose proof (lens_lookup _ _ _ Hl Hr) as Hlt.
+    apply andb_true_iff in Hlt. destruct Hlt as [Hlt H3]. apply andb_true_iff in Hlt. destruct Hlt as [H1 H2].
+    assert (Hdrop : lens (put w r0 (set_cell t None None))).
+    { apply (lens_of_upd w _ r0 (set_cell t None None)); auto.
+      unfold lengths_ok, set_cell, nframes in *. cbn [tm ul ua xp]. rewrite H1. reflexivity. }
+    destruct m as [m|]; [|inversion H; subst; exact Hdrop].
+    destruct (allzero || Nat.eqb m 0); [inversion H; subst; exact Hdrop|].
+    destruct (Nat.eqb m (nframes t)) eqn:Em; cbn [negb] in H; [|inversion H; subst; auto].
+    destruct (fresh_src w) as [w1 s] eqn:S. destruct (new_arr w1 _) as [w2 l] eqn:A.
+    destruct (new_arr w2 _) as [w3 a] eqn:B. inversion H; subst.
+    apply fresh_src_spec in S. destruct S as [S1 _]. apply new_arr_spec in A. destruct A as [A1 [_ [_ [A4 _]]]].
+    apply new_arr_spec in B. destruct B as [B1 [_ [_ [B4 _]]]].
+    match goal with |- lens (put _ _ ?t2) => apply (lens_of_upd w _ r0 t2); auto end.
+    + cbn [trajs put]. rewrite (ext_trajs _ _ (ext_trans _ _ _ S1 (ext_trans _ _ _ A1 B1))). reflexivity.
+    + unfold lengths_ok, set_cell, nframes in *. cbn [tm ul ua xp a_val]. rewrite A4, B4, !map_length, !seq_length.
+      apply Nat.eqb_eq in Em. rewrite Em, Nat.eqb_refl, H1. reflexivity.
+Qed.
+
+Lemma run_lens v ops : forall w, wf w -> lens w -> guarded xyz_guard v w ops = true -> lens (fst (run v w ops)).
+Proof.
+  induction ops as [|o rest IH]; intros w Hw Hc Hg; cbn [run]; [exact Hc|].
+  cbn [guarded] in Hg. apply andb_true_iff in Hg. destruct Hg as [G1 G2].
+  destruct (step v w o) as [w1 x] eqn:S. cbn [fst] in G2.
+  specialize (IH w1 (step_wf _ _ _ _ _ Hw S) (step_lens _ _ _ _ _ Hw Hc G1 S) G2).
+  destruct (run v w1 rest) as [w2 xs]. exact IH.
+Qed.
+
+Lemma init_lens sps : lens (init_world sps).
+Proof.
+  unfold init_world. assert (H : lens empty_world) by constructor.
+  revert H. generalize empty_world. induction sps as [|sp rest IH]; intros w Hl; cbn; auto.
+  apply IH. destruct sp as [[[n chs] cell] etime]. unfold load.
+  destruct (fresh_src w) as [w1 s] eqn:S. destruct (alloc_x w1 _) as [w2 b] eqn:A.
+  destruct (fresh_top w2) as [w3 tl] eqn:T. destruct (new_arr w3 _) as [w4 tm'] eqn:N4.
+  lazymatch goal with |- lens (let '(_, _) := ?e in _) => destruct e as [w5 l] eqn:N5 end.
+  lazymatch goal with |- lens (let '(_, _) := ?e in _) => destruct e as [w6 a] eqn:N6 end.
+  assert (Ht : trajs w6 = trajs w).
+  { unfold fresh_src in S. unfold alloc_x in A. unfold fresh_top in T. unfold new_arr, fresh_buf in *.
+    inversion S; subst; clear S. inversion A; subst; clear A. inversion T; subst; clear T. inversion N4; subst; clear N4.
+    destruct cell; inversion N5; subst; clear N5; inversion N6; subst; clear N6; reflexivity. }
+  assert (Hv : length (a_val tm') = n /\ (match l with None => True | Some c => length (a_val c) = n end)
+               /\ (match a with None => True | Some c => length (a_val c) = n end)).
+  { unfold new_arr, fresh_buf in *. inversion N4; subst; clear N4. cbn [a_val].
+    destruct cell; inversion N5; subst; clear N5; inversion N6; subst; clear N6; cbn [a_val];
+      destruct etime; rewrite ?map_length, ?seq_length; auto. }
+  destruct Hv as [V1 [V2 V3]].
+  unfold lens. cbn [trajs push]. rewrite Ht. apply Forall_app. split; [exact Hl|]. constructor; [|constructor].
+  unfold lengths_ok, nframes. cbn [xp tm ul ua]. rewrite seq_length, V1, Nat.eqb_refl.
+  destruct l; destruct a; rewrite ?V2, ?V3, ?Nat.eqb_refl; reflexivity.
+Qed.
+
+(* ------------------------------------------------------------------ freshness: no memory shared with an input *)
+Definition obuf {A} (o : option (arr A)) : list nat := match o with None => [] | Some c => [a_buf c] end.
+Definition bufs (t : traj) : list nat := a_buf (tm t) :: obuf (ul t) ++ obuf (ua t) ++ obuf (tr t).
+
+(* two registers have no array buffer and no topology object in common *)
+Definition independent (t t' : traj) : Prop :=
+  xb t <> xb t' /\ (forall b, In b (bufs t) -> ~ In b (bufs t')) /\ tloc t <> tloc t'.
+
+Lemma bufs_below w t : ids_below w t -> forall b, In b (bufs t) -> b < nbuf w.
+Proof.
+  intros [H1 [H2 [H3 [H4 _]]]] b Hb. unfold bufs, obuf, oarr_below in *. cbn in Hb.
+  destruct Hb as [<-|Hb]; [exact H1|].
+  repeat (apply in_app_or in Hb; destruct Hb as [Hb|Hb]);
+    [destruct (ul t)|destruct (ua t)|destruct (tr t)]; cbn in Hb; try tauto; destruct Hb as [<-|[]]; auto.
+Qed.
+
+Lemma bufs_above w t : fresh_reg w t -> forall b, In b (bufs t) -> nbuf w <= b.
+Proof.
+  intros [_ [H1 [H2 [H3 [H4 _]]]]] b Hb. unfold bufs, obuf, oarr_above in *. cbn in Hb.
+  destruct Hb as [<-|Hb]; [exact H1|].
+  repeat (apply in_app_or in Hb; destruct Hb as [Hb|Hb]);
+    [destruct (ul t)|destruct (ua t)|destruct (tr t)]; cbn in Hb; try tauto; destruct Hb as [<-|[]]; auto.
+Qed.
+
+Lemma fresh_independent w t t' : reg_ok w t -> fresh_reg w t' -> independent t t'.
+Proof.
+  intros [[Hx _] Hi] Hf. pose proof (bufs_below _ _ Hi) as Hb. pose proof (bufs_above _ _ Hf) as Ha.
+  destruct Hf as [F1 [_ [_ [_ [_ F6]]]]]. destruct Hi as [_ [_ [_ [_ I5]]]].
+  split; [lia|]. split; [|lia]. intros b H1 H2. specialize (Hb b H1). specialize (Ha b H2). lia.
+Qed.
+
+Definition makes_independent (o : op) : bool :=
+  match o with
+  | OSlice _ _ copy => copy
+  | OJoin _ _ _ | OMdJoin _ => true
+  | OAtomSlice _ _ inplace | ORemoveSolvent _ inplace => negb inplace
+  | _ => false
+  end.
+
+Definition makes_new_xyz (o : op) : bool :=
+  match o with
+  | OSlice _ _ copy => copy
+  | OJoin _ _ _ | OMdJoin _ | OStack _ _ => true
+  | OAtomSlice _ _ inplace | ORemoveSolvent _ inplace => negb inplace
+  | _ => false
+  end.
+
+Lemma step_independent v w o w' :
+  wf w -> makes_independent o = true -> step v w o = (w', ROk) ->
+  exists t', trajs w' = trajs w ++ [t'] /\ forall t, In t (trajs w) -> independent t t'.
+Proof.
+  intros Hwf Hm H.
+  assert (G : forall t', fresh_reg w t' -> forall t, In t (trajs w) -> independent t t').
+  { intros t' Hf t Hin. eapply fresh_independent; eauto. unfold wf in Hwf. rewrite Forall_forall in Hwf. auto. }
+  destruct o; cbn [makes_independent] in Hm; try discriminate; cbn [step] in H.
+  - subst copy.
+    destruct (nth_error (trajs w) r) as [t|] eqn:Hr; [|unfold do_slice in H; rewrite Hr in H; discriminate].
+    destruct (slice_ok _ _ _ _ _ _ _ Hwf Hr H) as [t' [xi [xs [_ [Ht [_ [_ [_ [_ [_ [_ [_ [_ [_ [_ Hf]]]]]]]]]]]]]]].
+    exists t'. split; auto.
+  - unfold do_join in H. destruct (nth_error (trajs w) r) as [t|]; [|discriminate].
+    destruct (get_all w others) as [os|]; [|discriminate].
+    destruct (join_trajs_ok _ _ _ _ _ Hwf H) as [t' [Ht [_ [_ [_ [_ [_ [_ [_ [_ [_ [Hf _]]]]]]]]]]]].
+    exists t'. split; auto.
+  - unfold do_mdjoin in H. destruct (get_all w rs) as [[|t [|o rest]]|]; try discriminate.
+    destruct (join_trajs_ok _ _ _ _ _ Hwf H) as [t' [Ht [_ [_ [_ [_ [_ [_ [_ [_ [_ [Hf _]]]]]]]]]]]].
+    exists t'. split; auto.
+  - destruct inplace; [discriminate|].
+    destruct (nth_error (trajs w) r) as [t|] eqn:Hr; [|unfold do_atom_slice in H; rewrite Hr in H; discriminate].
+    destruct (atom_slice_new_ok _ _ _ _ _ _ Hwf Hr H) as [t' [ni [_ [Ht [_ [_ [_ [_ [_ [_ [_ [_ [_ Hf]]]]]]]]]]]]].
+    exists t'. split; auto.
+  - destruct inplace; [discriminate|]. unfold do_remove_solvent in H.
+    destruct (nth_error (trajs w) r) as [t|] eqn:Hr; [|discriminate].
+    destruct (atom_slice_new_ok _ _ _ _ _ _ Hwf Hr H) as [t' [ni [_ [Ht [_ [_ [_ [_ [_ [_ [_ [_ [_ Hf]]]]]]]]]]]]].
+    exists t'. split; auto.
+Qed.
+
+Lemma step_fresh_xyz v w o w' :
+  wf w -> makes_new_xyz o = true -> step v w o = (w', ROk) ->
+  exists t', trajs w' = trajs w ++ [t'] /\
+             forall t, In t (trajs w) -> xb t <> xb t' /\ overlap (xb t') (xp t') (xb t) (xp t) = false.
+Proof.
+  intros Hwf Hm H.
+  assert (G : forall t', length (hx w) <= xb t' ->
+                forall t, In t (trajs w) -> xb t <> xb t' /\ overlap (xb t') (xp t') (xb t) (xp t) = false).
+  { intros t' Hf t Hin. unfold wf in Hwf. rewrite Forall_forall in Hwf. destruct (Hwf t Hin) as [[Hx _] _].
+    split; [lia|]. unfold overlap. replace (Nat.eqb (xb t') (xb t)) with false; [reflexivity|].
+    symmetry. apply Nat.eqb_neq. lia. }
+  destruct (makes_independent o) eqn:Hi.
+  - destruct (step_independent _ _ _ _ Hwf Hi H) as [t' [Ht Hind]]. exists t'. split; auto.
+    intros t Hin. apply G; auto.
+    (* fresh_reg gives the bound directly; recover it from the per-op lemmas *)
+    destruct o; cbn [makes_independent] in Hi; try discriminate; cbn [step] in H.
+    + subst copy. destruct (nth_error (trajs w) r) as [t0|] eqn:Hr; [|unfold do_slice in H; rewrite Hr in H; discriminate].
+      destruct (slice_ok _ _ _ _ _ _ _ Hwf Hr H) as [t2 [xi [xs [_ [Ht2 [_ [_ [_ [_ [_ [_ [_ [_ [_ [_ Hf]]]]]]]]]]]]]]].
+      rewrite Ht in Ht2. apply app_inj_tail in Ht2. destruct Ht2 as [_ <-]. destruct (Hf eq_refl) as [? _]. auto.
+    + unfold do_join in H. destruct (nth_error (trajs w) r) as [t0|]; [|discriminate].
+      destruct (get_all w others) as [os|]; [|discriminate].
+      destruct (join_trajs_ok _ _ _ _ _ Hwf H) as [t2 [Ht2 [_ [_ [_ [_ [_ [_ [_ [_ [_ [Hf _]]]]]]]]]]]].
+      rewrite Ht in Ht2. apply app_inj_tail in Ht2. destruct Ht2 as [_ <-]. destruct Hf as [? _]. auto.
+    + unfold do_mdjoin in H. destruct (get_all w rs) as [[|t0 [|o rest]]|]; try discriminate.
+      destruct (join_trajs_ok _ _ _ _ _ Hwf H) as [t2 [Ht2 [_ [_ [_ [_ [_ [_ [_ [_ [_ [Hf _]]]]]]]]]]]].
+      rewrite Ht in Ht2. apply app_inj_tail in Ht2. destruct Ht2 as [_ <-]. destruct Hf as [? _]. auto.
+    + destruct inplace; [discriminate|].
+      destruct (nth_error (trajs w) r) as [t0|] eqn:Hr; [|unfold do_atom_slice in H; rewrite Hr in H; discriminate].
+      destruct (atom_slice_new_ok _ _ _ _ _ _ Hwf Hr H) as [t2 [ni [_ [Ht2 [_ [_ [_ [_ [_ [_ [_ [_ [_ Hf]]]]]]]]]]]]].
+      rewrite Ht in Ht2. apply app_inj_tail in Ht2. destruct Ht2 as [_ <-]. destruct Hf as [? _]. auto.
+    + destruct inplace; [discriminate|]. unfold do_remove_solvent in H.
+      destruct (nth_error (trajs w) r) as [t0|] eqn:Hr; [|discriminate].
+      destruct (atom_slice_new_ok _ _ _ _ _ _ Hwf Hr H) as [t2 [ni [_ [Ht2 [_ [_ [_ [_ [_ [_ [_ [_ [_ Hf]]]]]]]]]]]]].
+      rewrite Ht in Ht2. apply app_inj_tail in Ht2. destruct Ht2 as [_ <-]. destruct Hf as [? _]. auto.
+  - destruct o; cbn [makes_new_xyz makes_independent] in Hm, Hi; try discriminate; try congruence; cbn [step] in H.
+    destruct (nth_error (trajs w) r) as [t|] eqn:Hr; [|unfold do_stack in H; rewrite Hr in H; discriminate].
+    destruct (nth_error (trajs w) r') as [o|] eqn:Hr'; [|unfold do_stack in H; rewrite Hr, Hr' in H; discriminate].
+    destruct (stack_ok _ _ _ _ _ _ Hwf Hr Hr' H) as [t' [Ht [_ [_ [_ [_ [_ [_ [_ [_ [_ [_ [Hf _]]]]]]]]]]]]].
+    exists t'. split; auto.
+Qed.
+
+(* ------------------------------------------------------------------ what the precentred shortcut reads *)
+(* rmsd(target, reference, frame, precentered=True) uses target._rmsd_traces[i] as the trace of frame i and the
+   coordinates as they are; from scratch it centres frame i and computes the trace of the centred frame.
+   With a consistent cache the two coincide: entry i IS the (already centred) frame. *)
+Lemma precentered_reads_scratch w t c :
+  tr t = Some c -> cache_ok w t = true ->
+  length (a_val c) = nframes t /\
+  forall i x, nth_error (frames w t) i = Some x -> nth_error (a_val c) i = Some (cen x) /\ cen x = x.
+Proof.
+  intros H1 H2. destruct (cache_ok_inv _ _ _ H1 H2) as [Hv Hc]. split.
+  - rewrite Hv. apply length_frames.
+  - intros i x Hx. rewrite Forall_forall in Hc.
+    assert (E : cen x = x) by (apply cen_fix; apply Hc; eapply nth_error_In; eauto).
+    rewrite E, Hv. auto.
+Qed.
+
+(* ------------------------------------------------------------------ witnesses against the code as found *)
+Definition specs1 : list spec := [(4, [[1; 2; 3]], false, true)].
+
+(* D1: center_coordinates(); t[1:] *)
+Definition ops_d1 : list op := [OCenter 0 false; OSlice 0 (KSlice (Some 1%Z) None None) true].
+(* D2: center_coordinates(); atom_slice([0, 2], inplace=True) *)
+Definition ops_d2 : list op := [OCenter 0 false; OAtomSlice 0 [0%Z; 2%Z] true].
+(* shared buffer: center_coordinates(); v = t.slice(slice(1, 3), copy=False); v.superpose(t2, 0) *)
+Definition specs2 : list spec := [(4, [[1; 2; 3]], false, true); (2, [[1; 2; 3]], false, true)].
+Definition ops_alias : list op := [OCenter 0 false; OSlice 0 (KSlice (Some 1%Z) (Some 3%Z) None) false; OSuperpose 2 1 0%Z].
+
+Definition cinvb (w : world) : bool := forallb (cache_ok w) (trajs w).
+Lemma cinvb_iff w : cinvb w = true <-> cinv w.
+Proof. unfold cinvb, cinv. rewrite forallb_forall, Forall_forall. tauto. Qed.
+
+Lemma d1_refuted :
+  guarded inplace_guard (mkVar false true) (init_world specs1) ops_d1 = true /\
+  cinvb (fst (run (mkVar false true) (init_world specs1) ops_d1)) = false.
+Proof. split; vm_compute; reflexivity. Qed.
+
+Lemma d2_refuted :
+  guarded inplace_guard (mkVar true false) (init_world specs1) ops_d2 = true /\
+  cinvb (fst (run (mkVar true false) (init_world specs1) ops_d2)) = false.
+Proof. split; vm_compute; reflexivity. Qed.
+
+Lemma alias_refuted :
+  guarded inplace_guard v_fix (init_world specs2) ops_alias = false /\
+  cinvb (fst (run v_fix (init_world specs2) ops_alias)) = false.
+Proof. split; vm_compute; reflexivity. Qed.
+
+(* the length guard is needed: t.xyz = (array with one more frame) is accepted *)
+Definition lensb (w : world) : bool := forallb lengths_ok (trajs w).
+Lemma xyz_assignment_unchecked :
+  lensb (fst (run v_fix (init_world specs1) [OSetXyzNew 0 5 3])) = false /\
+  snd (run v_fix (init_world specs1) [OSetXyzNew 0 5 3]) = [ROk].
+Proof. split; vm_compute; reflexivity. Qed.
+
+(* non-vacuity: a history exercising every guard positively *)
+Definition ops_demo : list op :=
+  [OSlice 0 (KSlice (Some 1%Z) (Some 3%Z) None) false; OCenter 1 false; OSlice 1 (KSlice None None (Some (-1)%Z)) true;
+   OSlice 0 (KList [3%Z; 0%Z; 0%Z]) true; OJoin 2 [2] true; OStack 2 2; OAtomSlice 2 [0%Z; 2%Z] true;
+   OSuperpose 3 0 (-1)%Z; OSetXyzNew 3 3 3; OCenter 3 true; OMdJoin [3; 3]].
+Lemma demo_guards :
+  guarded inplace_guard v_fix (init_world specs1) ops_demo = true /\
+  guarded xyz_guard v_fix (init_world specs1) ops_demo = true /\
+  snd (run v_fix (init_world specs1) ops_demo) = [ROk; ROk; ROk; ROk; ROk; ROk; ROk; ROk; ROk; ROk; ROk].
+Proof. splits; vm_compute; reflexivity. Qed.
+
+(* ------------------------------------------------------------------ statements in terms of [step] *)
+Definition join_post (w : world) (t : traj) (others : list traj) (w' : world) (t' : traj) : Prop :=
+  trajs w' = trajs w ++ [t'] /\ hext w w' /\
+  frames w' t' = flat_map (frames w) (t :: others) /\
+  a_val (tm t') = flat_map (fun o => a_val (tm o)) (t :: others) /\
+  (if have_cell t then
+     exists l a, ul t' = Some l /\ ua t' = Some a /\ a_val l = ocat (map ul (t :: others)) /\ a_val a = ocat (map ua (t :: others))
+   else ul t' = None /\ ua t' = None) /\
+  na t' = na t /\ chains t' = chains t /\ tr t' = None /\ lengths_ok t' = true.
+
+Lemma join_step_ok v w r others ct w' :
+  wf w -> step v w (OJoin r others ct) = (w', ROk) ->
+  exists t os t', nth_error (trajs w) r = Some t /\ get_all w others = Some os /\ join_post w t os w' t'.
+Proof.
+  intros Hwf H. cbn [step] in H. unfold do_join in H.
+  destruct (nth_error (trajs w) r) as [t|] eqn:Hr; [|discriminate].
+  destruct (get_all w others) as [os|] eqn:Ho; [|discriminate].
+  destruct (join_trajs_ok _ _ _ _ _ Hwf H) as [t' [A [B [C [D [E [F [G [I [J _]]]]]]]]]].
+  exists t, os, t'. unfold join_post. splits; auto.
+Qed.
+
+Lemma mdjoin_step_ok v w rs w' :
+  wf w -> step v w (OMdJoin rs) = (w', ROk) ->
+  exists t o rest t', get_all w rs = Some (t :: o :: rest) /\ join_post w t (o :: rest) w' t'.
+Proof.
+  intros Hwf H. cbn [step] in H. unfold do_mdjoin in H.
+  destruct (get_all w rs) as [[|t [|o rest]]|] eqn:Ho; try discriminate.
+  destruct (join_trajs_ok _ _ _ _ _ Hwf H) as [t' [A [B [C [D [E [F [G [I [J _]]]]]]]]]].
+  exists t, o, rest, t'. unfold join_post. splits; auto.
+Qed.
+
+Lemma run_cinv_init sps ops :
+  guarded inplace_guard v_fix (init_world sps) ops = true -> cinv (fst (run v_fix (init_world sps) ops)).
+Proof. intros H. apply run_cinv; auto using init_wf, init_cinv. Qed.
+
+Lemma run_lens_init v sps ops :
+  guarded xyz_guard v (init_world sps) ops = true -> lens (fst (run v (init_world sps) ops)).
+Proof. intros H. apply run_lens; auto using init_wf, init_lens. Qed.
